@@ -68,6 +68,9 @@ Proof. intros H1 H2 r Y H. rewrite <- !app_assoc. apply H1, H2, H. Qed.
 Lemma LKP_LKU_app u1 k1 u2 k2 : LKP u1 k1 -> LKU u2 k2 -> LKU (u1 ++ u2) (k1 ++ k2).
 Proof. intros H1 H2 r Y. rewrite <- !app_assoc. apply H1, H2. Qed.
 
+Lemma LKsP_app u1 k1 u2 k2 : LKsP u1 k1 -> LKsP u2 k2 -> LKsP (u1 ++ u2) (k1 ++ k2).
+Proof. intros H1 H2 r Y H. rewrite <- !app_assoc. apply H1, H2, H. Qed.
+
 Lemma LKU_LKP u k : LKU u k -> LKP u k.
 Proof. intros H r Y _. apply H. Qed.
 
@@ -358,7 +361,7 @@ Proof.
   rewrite peek_shift. eapply command_mono; [|exact Hc]. lia.
 Qed.
 
-(* ------------------------------------------- the fragment without \item *)
+(* --------------------------- the fragment with shallow look-ahead peeks *)
 
 (* nothing that read_args would take as an argument follows *)
 Definition noarg (Y : list token) : bool :=
@@ -367,33 +370,121 @@ Definition noarg (Y : list token) : bool :=
   | _ => true
   end.
 
-Definition end_ok (l : list token) : bool :=
-  match l with
-  | _ :: _ :: _ :: Y => if simple_name_group l then noarg Y else true
-  | _ => true
+(* how far a peek at `\item` / `\end` reads: nothing after the name (KPlain),
+   exactly one simple name group `{` Text `}` (KGroup, after \end), or exactly
+   one simple label `[` Text `]` (KBracket, after \item) *)
+Inductive pkind := KPlain | KGroup | KBracket.
+
+Definition simple_bracket (toks : list token) : bool :=
+  match toks with
+  | o :: n :: c :: _ => is_tc TBracketBegin o && is_tc TText n && is_tc TBracketEnd c
+  | _ => false
   end.
 
-(* no \item; every \end{name} is followed by something that is not a group *)
+Definition endk (r : list token) : option pkind :=
+  match after_spacer r with
+  | [] => Some KPlain
+  | c :: l' =>
+    if is_opener c then
+      match l' with
+      | _ :: _ :: Z => if simple_name_group (c :: l') && noarg Z then Some KGroup else None
+      | _ => None
+      end
+    else Some KPlain
+  end.
+
+Definition itemk (r : list token) : option pkind :=
+  if noarg r then Some KPlain
+  else match after_spacer r with
+       | c :: n :: cl :: Z =>
+         if simple_bracket (c :: n :: cl :: Z) && noarg Z then Some KBracket else None
+       | _ => None
+       end.
+
+Definition pvk (L : list token) : option pkind :=
+  match L with
+  | t :: nm :: r =>
+    if is_tc TEscape t then
+      if str_eqb (ttext nm) s_item then itemk r
+      else if str_eqb (ttext nm) s_end then endk r
+      else Some KPlain
+    else Some KPlain
+  | _ => Some KPlain
+  end.
+
+(* every \item is plain or has a simple label `[` Text `]` followed by no
+   group; every \end is followed either by no group or by a simple name group
+   that is itself followed by no group *)
 Fixpoint frag (toks : list token) : bool :=
   match toks with
-  | e :: ((n :: r) as toks') =>
-    (if is_tc TEscape e
-     then negb (str_eqb (ttext n) s_item) &&
-          (if str_eqb (ttext n) s_end then end_ok (after_spacer r) else true)
-     else true) && frag toks'
-  | _ => true
+  | [] => true
+  | _ :: toks' => (match pvk toks with Some _ => true | None => false end) && frag toks'
   end.
 
 Lemma frag_suffix a b : frag (a ++ b) = true -> frag b = true.
 Proof.
-  induction a as [|x a IH]; simpl; auto.
-  destruct (a ++ b) eqn:E.
-  - destruct a; simpl in E; [subst; reflexivity | discriminate].
-  - intro H. apply andb_true_iff in H. apply IH. tauto.
+  induction a as [|x a IH]; [auto|]. cbn [app frag]. intro H.
+  apply andb_true_iff in H. apply IH. tauto.
 Qed.
 
 Lemma frag_tail t l : frag (t :: l) = true -> frag l = true.
 Proof. apply (frag_suffix [t] l). Qed.
+
+Lemma frag_pvk L : frag L = true -> exists k, pvk L = Some k.
+Proof.
+  destruct L as [|t l]; [exists KPlain; reflexivity|]. cbn [frag]. intro H.
+  apply andb_true_iff in H. destruct H as [H _].
+  destruct (pvk (t :: l)) as [k|]; [eauto | discriminate H].
+Qed.
+
+(* the peek views agree *)
+Definition PV (a b : list token) : Prop := forall k, pvk a = Some k -> pvk b = Some k.
+Definition LKp (a b : list token) : Prop := LK a b /\ PV a b.
+Definition PVP (used kept rest : list token) : Prop :=
+  forall Y, LK rest Y -> PV rest Y -> PV (used ++ rest) (kept ++ Y).
+Definition PVE (used kept rest : list token) : Prop :=
+  forall Y, LK rest Y -> PV (used ++ rest) (kept ++ Y).
+Definition PVU (used kept rest : list token) : Prop :=
+  forall Y : list token, PV (used ++ rest) (kept ++ Y).
+
+Lemma PV_refl a : PV a a.
+Proof. intros k H. exact H. Qed.
+
+Lemma PVP_nil rest : PVP [] [] rest.
+Proof. intros Y _ H. exact H. Qed.
+
+Lemma PVU_PVE u k rest : PVU u k rest -> PVE u k rest.
+Proof. intros H Y _. apply H. Qed.
+Lemma PVE_PVP u k rest : PVE u k rest -> PVP u k rest.
+Proof. intros H Y Hl _. apply H. exact Hl. Qed.
+
+Lemma PVP_app u1 k1 u2 k2 src1 rest : src1 = u2 ++ rest ->
+  PVP u1 k1 src1 -> LKP u2 k2 -> PVP u2 k2 rest -> PVP (u1 ++ u2) (k1 ++ k2) rest.
+Proof.
+  intros -> H1 L2 H2 Y Hl Hp. rewrite <- !app_assoc. apply H1; [apply L2; exact Hl|].
+  apply H2; assumption.
+Qed.
+Lemma PVP_PVE_app u1 k1 u2 k2 src1 rest : src1 = u2 ++ rest ->
+  PVP u1 k1 src1 -> LKU u2 k2 -> PVE u2 k2 rest -> PVE (u1 ++ u2) (k1 ++ k2) rest.
+Proof.
+  intros -> H1 L2 H2 Y Hl. rewrite <- !app_assoc. apply H1; [apply L2|]. apply H2. exact Hl.
+Qed.
+Lemma PVP_PVU_app u1 k1 u2 k2 src1 rest : src1 = u2 ++ rest ->
+  PVP u1 k1 src1 -> LKU u2 k2 -> PVU u2 k2 rest -> PVU (u1 ++ u2) (k1 ++ k2) rest.
+Proof.
+  intros -> H1 L2 H2 Y. rewrite <- !app_assoc. apply H1; [apply L2|]. apply H2.
+Qed.
+
+(* a first token that is not an escape: nothing to compare *)
+Lemma PVU_plain c u k rest : is_tc TEscape c = false -> PVU (c :: u) (c :: k) rest.
+Proof.
+  intros He Y kd H. cbn [app] in *.
+  destruct (u ++ rest) as [|x l]; destruct (k ++ Y) as [|x' l']; cbn [pvk] in *;
+    rewrite ?He in *; exact H.
+Qed.
+
+Lemma PVP_one c rest : is_tc TEscape c = false -> PVP [c] [c] rest.
+Proof. intro He. apply PVE_PVP, PVU_PVE, PVU_plain. exact He. Qed.
 
 Lemma noarg_LKs a b : LKs a b -> noarg a = noarg b.
 Proof. unfold LKs, noarg. intros ->. reflexivity. Qed.
@@ -411,19 +502,23 @@ Definition fp_expr f := forall skip m toks e rest,
   exists used, toks = used ++ rest /\ (nobare e = true ->
     exists kept, Kept used kept /\ estr e = texts kept /\ LKP used kept /\
       det (fun g l => read_expr g skip true m l) LK kept rest e /\
-      (frag toks = true -> succ (fun l => read_expr f skip true m l) LK kept rest e)).
+      (frag toks = true -> succ (fun l => read_expr f skip true m l) LKp kept rest e) /\
+      PVP used kept rest).
 Definition fp_item f := forall acc toks es rest,
   Hyp toks -> read_item_loop f acc toks = Ok (es, rest) ->
   exists used new, toks = used ++ rest /\ es = acc ++ new /\ (forallb nobare new = true ->
     exists kept, Kept used kept /\ estr_list new = texts kept /\ LKP used kept /\
-      det (fun g l => read_item_loop g acc l) LK kept rest es).
+      det (fun g l => read_item_loop g acc l) LK kept rest es /\
+      (frag toks = true -> succ (fun l => read_item_loop f acc l) LKp kept rest es) /\
+      PVP used kept rest).
 Definition fp_math f := forall k pos acc toks e rest,
   Hyp toks -> read_math_loop f k pos true acc toks = Ok (e, rest) ->
   exists used new, toks = used ++ rest /\ e = EMath k (acc ++ new) pos /\
    (forallb nobare new = true ->
     exists kept, Kept used kept /\ estr_list new ++ math_end k = texts kept /\ LKU used kept /\
       det (fun g l => read_math_loop g k pos true acc l) anyR kept rest e /\
-      (frag toks = true -> succ (fun l => read_math_loop f k pos true acc l) anyR kept rest e)).
+      (frag toks = true -> succ (fun l => read_math_loop f k pos true acc l) anyR kept rest e) /\
+      PVU used kept rest).
 Definition fp_env f := forall name args pos skip m acc toks e rest,
   sub_skip SK skip -> Hyp toks ->
   read_env_loop f name args pos skip true m acc toks = Ok (e, rest) ->
@@ -432,7 +527,8 @@ Definition fp_env f := forall name args pos skip m acc toks e rest,
     exists kept, Kept used kept /\ estr_list new ++ env_end name = texts kept /\ LKU used kept /\
       det (fun g l => read_env_loop g name args pos skip true m acc l) anyR kept rest e /\
       (frag toks = true ->
-       succ (fun l => read_env_loop f name args pos skip true m acc l) anyR kept rest e)).
+       succ (fun l => read_env_loop f name args pos skip true m acc l) LK kept rest e) /\
+      PVE used kept rest).
 Definition fp_command f := forall nreq nopt m toks name args rest,
   Hyp toks -> read_command f nreq nopt 0 true m toks = Ok ((name, args), rest) ->
   (toks = [] /\ name = [] /\ args = [] /\ rest = []) \/
@@ -440,13 +536,15 @@ Definition fp_command f := forall nreq nopt m toks name args rest,
     exists kept, Kept used kept /\ estr_list args = texts kept /\
       det (fun g l => read_command g nreq nopt 0 true m l) LK (nt :: kept) rest (name, args) /\
       (frag toks = true ->
-       succ (fun l => read_command f nreq nopt 0 true m l) LK (nt :: kept) rest (name, args))).
+       succ (fun l => read_command f nreq nopt 0 true m l) LK (nt :: kept) rest (name, args)) /\
+      LKsP used kept).
 Definition fp_args f := forall nreq nopt m toks args rest,
   Hyp toks -> read_args f nreq nopt true m toks = Ok (args, rest) ->
   exists used, toks = used ++ rest /\ (okargs args = true ->
     exists kept, Kept used kept /\ estr_list args = texts kept /\
       det (fun g l => read_args g nreq nopt true m l) LK kept rest args /\
-      (frag toks = true -> succ (fun l => read_args f nreq nopt true m l) LK kept rest args)).
+      (frag toks = true -> succ (fun l => read_args f nreq nopt true m l) LK kept rest args) /\
+      LKsP used kept).
 Definition fp_opt f := forall args nopt m toks args' n' rest,
   Hyp toks -> read_arg_optional f args nopt true m toks = Ok ((args', n'), rest) ->
   exists used new, toks = used ++ rest /\ args' = args ++ new /\ (okargs new = true ->
@@ -473,7 +571,8 @@ Definition fp_argloop f := forall k pos m acc toks e rest,
    (forallb nobare new = true ->
     exists kept, Kept used kept /\ estr_list new ++ group_end k = texts kept /\ LKU used kept /\
       det (fun g l => read_arg_loop g k pos true m acc l) anyR kept rest e /\
-      (frag toks = true -> succ (fun l => read_arg_loop f k pos true m acc l) anyR kept rest e)).
+      (frag toks = true -> succ (fun l => read_arg_loop f k pos true m acc l) anyR kept rest e) /\
+      PVU used kept rest).
 
 Definition fp_all f :=
   fp_expr f /\ fp_item f /\ fp_math f /\ fp_env f /\ fp_command f /\ fp_args f /\
@@ -495,7 +594,8 @@ Proof.
     split.
     { intros g Y r _ HB. destruct g as [|g]; [discriminate HB|].
       cbn [read_arg_loop app] in HB. rewrite Eend in HB. inversion HB. reflexivity. }
-    intros _ Y _. cbn [read_arg_loop app]. rewrite Eend. reflexivity.
+    split; [intros _ Y _; cbn [read_arg_loop app]; rewrite Eend; reflexivity|].
+    apply PVU_plain. exact S2.
   - apply bind_ok in H. destruct H as ([e1 src1] & He & H).
     apply Ce in He; [|exact (no_skip SK) | exact Hy]. destruct He as (u1 & Eu1 & C1).
     apply Cl in H; [|rewrite Eu1 in Hy; eapply Hyp_suffix; exact Hy].
@@ -504,8 +604,8 @@ Proof.
     split; [rewrite Eu1, Eu2, <- app_assoc; reflexivity|].
     split; [rewrite <- app_assoc; reflexivity|].
     intro Hn. simpl in Hn. apply andb_true_iff in Hn. destruct Hn as [Hn1 Hn2].
-    destruct (C1 Hn1) as (k1 & K1 & T1 & L1 & D1 & U1).
-    destruct (C2 Hn2) as (k2 & K2 & T2 & L2 & D2 & U2).
+    destruct (C1 Hn1) as (k1 & K1 & T1 & L1 & D1 & U1 & P1).
+    destruct (C2 Hn2) as (k2 & K2 & T2 & L2 & D2 & U2 & P2).
     exists (k1 ++ k2). split; [apply Kept_app; assumption|]. split.
     { change (estr_list (e1 :: new)) with (estr e1 ++ estr_list new).
       rewrite <- app_assoc, T1, T2, texts_app. reflexivity. }
@@ -520,10 +620,11 @@ Proof.
       apply bind_ok in HB. destruct HB as ([e1' s1'] & HB1 & HB2).
       apply D1 in HB1; [|rewrite Eu2; apply L2]. inversion HB1; subst e1' s1'.
       apply D2 in HB2; [exact HB2 | exact I]. }
+    split; [|eapply PVP_PVU_app; eassumption].
     intros Hf Y _. rewrite <- app_assoc.
     destruct (LK_hd _ _ _ _ (Hlk Y) eq_refl) as (l' & EL).
     cbn [read_arg_loop]. rewrite EL. rewrite Eend. rewrite <- EL.
-    rewrite (U1 Hf (k2 ++ Y)); [|rewrite Eu2; apply L2]. cbn [bind].
+    rewrite (U1 Hf (k2 ++ Y)); [|split; rewrite Eu2; [apply L2 | apply P2]]. cbn [bind].
     apply U2; [rewrite Eu1 in Hf; eapply frag_suffix; exact Hf | exact I].
 Qed.
 
@@ -534,7 +635,7 @@ Proof.
   destruct (group_kind_of_begin (tcat c)) as [k|] eqn:Ek; [|discriminate].
   apply Cl in H; [|exact Hy]. destruct H as (used & new & Eu & -> & C).
   exists used. split; [exact Eu|]. split; [reflexivity|].
-  cbn [nobare app]. intro Hn. destruct (C Hn) as (kept & K & T & _ & D & U).
+  cbn [nobare app]. intro Hn. destruct (C Hn) as (kept & K & T & _ & D & U & _).
   exists kept. split; [exact K|]. split.
   { cbn [estr]. change (concat (map estr new)) with (estr_list new). rewrite T. f_equal.
     symmetry. apply Wc. apply group_kind_begin_tok. exact Ek. }
@@ -560,7 +661,8 @@ Proof.
     split.
     { intros g Y r _ HB. destruct g as [|g]; [discriminate HB|].
       cbn [read_math_loop app] in HB. rewrite Eend in HB. inversion HB. reflexivity. }
-    intros _ Y _. cbn [read_math_loop app]. rewrite Eend. reflexivity.
+    split; [intros _ Y _; cbn [read_math_loop app]; rewrite Eend; reflexivity|].
+    apply PVU_plain. exact S2.
   - apply bind_ok in H. destruct H as ([e1 src1] & He & H).
     apply Ce in He; [|exact (no_skip SK) | exact Hy]. destruct He as (u1 & Eu1 & C1).
     apply Cm in H; [|rewrite Eu1 in Hy; eapply Hyp_suffix; exact Hy].
@@ -569,8 +671,8 @@ Proof.
     split; [rewrite Eu1, Eu2, <- app_assoc; reflexivity|].
     split; [rewrite <- app_assoc; reflexivity|].
     intro Hn. simpl in Hn. apply andb_true_iff in Hn. destruct Hn as [Hn1 Hn2].
-    destruct (C1 Hn1) as (k1 & K1 & T1 & L1 & D1 & U1).
-    destruct (C2 Hn2) as (k2 & K2 & T2 & L2 & D2 & U2).
+    destruct (C1 Hn1) as (k1 & K1 & T1 & L1 & D1 & U1 & P1).
+    destruct (C2 Hn2) as (k2 & K2 & T2 & L2 & D2 & U2 & P2).
     exists (k1 ++ k2). split; [apply Kept_app; assumption|]. split.
     { change (estr_list (e1 :: new)) with (estr e1 ++ estr_list new).
       rewrite <- app_assoc, T1, T2, texts_app. reflexivity. }
@@ -585,10 +687,11 @@ Proof.
       apply bind_ok in HB. destruct HB as ([e1' s1'] & HB1 & HB2).
       apply D1 in HB1; [|rewrite Eu2; apply L2]. inversion HB1; subst e1' s1'.
       apply D2 in HB2; [exact HB2 | exact I]. }
+    split; [|eapply PVP_PVU_app; eassumption].
     intros Hf Y _. rewrite <- app_assoc.
     destruct (LK_hd _ _ _ _ (Hlk Y) eq_refl) as (l' & EL).
     cbn [read_math_loop]. rewrite EL. rewrite Eend. rewrite <- EL.
-    rewrite (U1 Hf (k2 ++ Y)); [|rewrite Eu2; apply L2]. cbn [bind].
+    rewrite (U1 Hf (k2 ++ Y)); [|split; rewrite Eu2; [apply L2 | apply P2]]. cbn [bind].
     apply U2; [rewrite Eu1 in Hf; eapply frag_suffix; exact Hf | exact I].
 Qed.
 
@@ -883,6 +986,7 @@ Proof.
     exists []. split; [constructor|]. split; [reflexivity|]. split.
     { intros g Y r _ HB. destruct g as [|g]; [discriminate HB|].
       cbn [read_args app] in HB. rewrite E00 in HB. inversion HB. reflexivity. }
+    split; [|apply LKsP_nil].
     intros _ Y _. cbn [read_args app]. rewrite E00. reflexivity. }
   apply bind_ok in H. destruct H as ([[args1 nopt1] src1] & H1 & H).
   apply Co in H1; [|exact Hy]. destruct H1 as (u1 & new1 & Eu1 & -> & C1).
@@ -1015,7 +1119,9 @@ Proof.
   { unfold args3, args2. rewrite !estr_list_app, !texts_app, T1, T2, T3, T4, <- !app_assoc.
     reflexivity. }
   split.
-  2:{ intros Hf Y Hlk. cbn [read_args]. rewrite E00. rewrite <- !app_assoc.
+  2:{ split.
+      2:{ repeat apply LKsP_app; apply ArgP_LKsP; assumption. }
+      intros Hf Y Hlk. cbn [read_args]. rewrite E00. rewrite <- !app_assoc.
       pose proof (LK_LKd _ _ Hlk) as (Hls & Hlh).
       pose proof (ArgP_LKsP _ _ A4 _ _ Hls) as L4.
       pose proof (ArgP_LKsP _ _ A3 _ _ L4) as L3.
@@ -1070,7 +1176,7 @@ Proof.
   apply bind_ok in H. destruct H as ([args1 src1] & Ha & H). inversion H; subst.
   apply Ca in Ha; [|eapply Hyp_tail; exact Hy]. destruct Ha as (used & Eu & C).
   exists nt, used. split; [rewrite Eu; reflexivity|]. split; [reflexivity|].
-  intro Hok. destruct (C Hok) as (kept & K & T & D & U).
+  intro Hok. destruct (C Hok) as (kept & K & T & D & U & LS).
   exists kept. split; [exact K|]. split; [exact T|]. split.
   { intros g Y r Hlk HB. destruct g as [|g]; [discriminate HB|].
     cbn [read_command app] in HB. change (skipn 0 (nt :: kept ++ Y)) with (nt :: kept ++ Y) in HB.
@@ -1079,7 +1185,7 @@ Proof.
     cbv beta iota in HB. rewrite Esig in HB.
     apply bind_ok in HB. destruct HB as ([a' s'] & HB1 & HB).
     apply D in HB1; [|exact Hlk]. inversion HB1; subst a' s'. inversion HB. reflexivity. }
-  intros Hf Y Hlk.
+  split; [|exact LS]. intros Hf Y Hlk.
   cbn [read_command app]. change (skipn 0 (nt :: kept ++ Y)) with (nt :: kept ++ Y).
   replace (length (nt :: kept ++ Y) <? 0)%nat with false by (symmetry; apply Nat.ltb_ge; lia).
   cbv beta iota. rewrite Esig. rewrite (U (frag_tail _ _ Hf) Y Hlk). reflexivity.
@@ -1105,155 +1211,8 @@ Proof.
   apply name_of_hd. destruct Hlk as (_ & Hk & _). symmetry. exact (Hk t eq_refl Ht).
 Qed.
 
-Lemma fp_item_S f : fp_all f -> fp_item (S f).
-Proof.
-  intros (Ce & Ci & Cm & Cv & Cc & Ca & Co & Cr & Cg & Cl).
-  unfold fp_item. intros acc toks es rest Hy H. simpl in H.
-  assert (Hstep : forall es rest,
-    bind (read_expr f [] true MNonMath toks)
-         (fun '(e, src1) => read_item_loop f (acc ++ [e]) src1) = Ok (es, rest) ->
-    exists used new, toks = used ++ rest /\ es = acc ++ new /\ (forallb nobare new = true ->
-      exists kept, Kept used kept /\ estr_list new = texts kept /\ LKP used kept /\
-        forall g Y r, LK rest Y ->
-          bind (read_expr g [] true MNonMath (kept ++ Y))
-               (fun '(e, src1) => read_item_loop g (acc ++ [e]) src1) = Ok r -> r = (es, Y))).
-  { intros es' rest' H'. apply bind_ok in H'. destruct H' as ([e1 src1] & He & H').
-    apply Ce in He; [|exact (no_skip SK) | exact Hy]. destruct He as (u1 & Eu1 & C1).
-    apply Ci in H'; [|rewrite Eu1 in Hy; eapply Hyp_suffix; exact Hy].
-    destruct H' as (u2 & new & Eu2 & -> & C2).
-    exists (u1 ++ u2), (e1 :: new).
-    split; [rewrite Eu1, Eu2, <- app_assoc; reflexivity|].
-    split; [rewrite <- app_assoc; reflexivity|].
-    intro Hn. simpl in Hn. apply andb_true_iff in Hn. destruct Hn as [Hn1 Hn2].
-    destruct (C1 Hn1) as (k1 & K1 & T1 & L1 & D1). destruct (C2 Hn2) as (k2 & K2 & T2 & L2 & D2).
-    exists (k1 ++ k2). split; [apply Kept_app; assumption|]. split.
-    { change (estr_list (e1 :: new)) with (estr e1 ++ estr_list new).
-      rewrite T1, T2, texts_app. reflexivity. }
-    split; [apply LKP_app; assumption|].
-    intros g Y r Hlk HB. rewrite <- app_assoc in HB.
-    apply bind_ok in HB. destruct HB as ([e1' s1'] & HB1 & HB2).
-    apply D1 in HB1; [|rewrite Eu2; apply L2; exact Hlk]. inversion HB1; subst e1' s1'.
-    apply D2 in HB2; [exact HB2 | exact Hlk]. }
-  destruct toks as [|t src].
-  { inversion H; subst es rest. exists [], [].
-      split; [reflexivity|]. split; [rewrite app_nil_r; reflexivity|]. intros _.
-      exists []. split; [constructor|]. split; [reflexivity|]. split; [apply LKP_nil|].
-      intros g Y r Hlk HB. cbn [app] in HB.
-    apply LK_nil_inv in Hlk. subst Y. destruct g as [|g]; [discriminate HB|].
-    cbn [read_item_loop] in HB. inversion HB. reflexivity. }
-  destruct (is_tc TEscape t) eqn:Et.
-  - apply bind_ok in H. destruct H as ([[cname cargs] crest] & Hpeek & H).
-    destruct (str_eqb cname s_end || str_eqb cname s_item) eqn:Estop.
-    + inversion H; subst es rest. exists [], [].
-      split; [reflexivity|]. split; [rewrite app_nil_r; reflexivity|]. intros _.
-      exists []. split; [constructor|]. split; [reflexivity|]. split; [apply LKP_nil|].
-      intros g Y r Hlk HB. cbn [app] in HB.
-      destruct (LK_hd _ _ _ _ Hlk eq_refl) as (l' & EL).
-      destruct g as [|g]; [discriminate HB|]. cbn [read_item_loop] in HB.
-      rewrite EL in HB. rewrite Et in HB. rewrite <- EL in HB.
-      apply bind_ok in HB. destruct HB as ([[cn' a'] r'] & HP & HB).
-      rewrite (LK_peek _ _ _ _ _ _ _ _ _ _ _ _ _ _ _ Hlk Et Hpeek HP), Estop in HB.
-      inversion HB. reflexivity.
-    + destruct (Hstep _ _ H) as (used & new & Eu & En & C). exists used, new.
-      split; [exact Eu|]. split; [exact En|]. intro Hn.
-      destruct (C Hn) as (kept & K & T & L & D). exists kept. repeat (split; [assumption|]).
-      intros g Y r Hlk HB.
-      assert (Hlk' : LK (t :: src) (kept ++ Y)) by (rewrite Eu; apply L; exact Hlk).
-      destruct (LK_hd _ _ _ _ Hlk' eq_refl) as (l' & EL).
-      destruct g as [|g]; [discriminate HB|]. cbn [read_item_loop] in HB.
-      rewrite EL in HB. rewrite Et in HB. rewrite <- EL in HB.
-      apply bind_ok in HB. destruct HB as ([[cn' a'] r'] & HP & HB).
-      rewrite (LK_peek _ _ _ _ _ _ _ _ _ _ _ _ _ _ _ Hlk' Et Hpeek HP), Estop in HB.
-      eapply D; eassumption.
-  - destruct (is_tc TGroupEnd t) eqn:Eg.
-    + inversion H; subst es rest. exists [], [].
-      split; [reflexivity|]. split; [rewrite app_nil_r; reflexivity|]. intros _.
-      exists []. split; [constructor|]. split; [reflexivity|]. split; [apply LKP_nil|].
-      intros g Y r Hlk HB. cbn [app] in HB.
-      destruct (LK_hd _ _ _ _ Hlk eq_refl) as (l' & EL).
-      destruct g as [|g]; [discriminate HB|]. cbn [read_item_loop] in HB.
-      rewrite EL in HB. rewrite Et, Eg in HB. rewrite <- EL in HB.
-      inversion HB. reflexivity.
-    + destruct (Hstep _ _ H) as (used & new & Eu & En & C). exists used, new.
-      split; [exact Eu|]. split; [exact En|]. intro Hn.
-      destruct (C Hn) as (kept & K & T & L & D). exists kept. repeat (split; [assumption|]).
-      intros g Y r Hlk HB.
-      assert (Hlk' : LK (t :: src) (kept ++ Y)) by (rewrite Eu; apply L; exact Hlk).
-      destruct (LK_hd _ _ _ _ Hlk' eq_refl) as (l' & EL).
-      destruct g as [|g]; [discriminate HB|]. cbn [read_item_loop] in HB.
-      rewrite EL in HB. rewrite Et, Eg in HB. rewrite <- EL in HB.
-      eapply D; eassumption.
-Qed.
-
-(* closing an environment (cf. ReaderCons.finish_end): exactly escape, `end`,
-   optional spacer, `{`, name, `}` are consumed; all but the spacer are kept *)
-Lemma finish_end_kept f m t l cname a0 cargs crest name b c src3 g rest :
-  Hyp (t :: l) -> is_tc TEscape t = true ->
-  read_command f (-1) (-1) 1 true m (t :: l) = Ok ((cname, a0 :: cargs), crest) ->
-  str_eqb cname s_end = true -> str_eqb (arg_string a0) name = true ->
-  read_spacer (skipn 2 (t :: l)) = (b, c :: src3) ->
-  read_arg f c true m src3 = Ok (g, rest) ->
-  exists nm n cl,
-    (t :: l = [t; nm; c; n; cl] ++ rest \/
-     exists sp, is_tc TMergedSpacer sp = true /\ t :: l = [t; nm; sp; c; n; cl] ++ rest) /\
-    env_end name = texts [t; nm; c; n; cl] /\ ttext nm = s_end /\
-    is_tc TGroupBegin c = true /\ is_tc TText n = true /\ is_tc TGroupEnd cl = true /\
-    simple_name_group (c :: n :: cl :: rest) = true.
-Proof.
-  intros Hy Ht Hpeek Hend Hname Esp Harg.
-  pose proof (end_peek_opens _ _ _ _ _ _ _ _ _ Hpeek Hend) as (c0 & Hc0 & Hk0).
-  destruct f as [|f1]; [discriminate|]. cbn [read_command] in Hpeek.
-  replace (length (t :: l) <? 1)%nat with false in Hpeek by reflexivity.
-  change (skipn 1 (t :: l)) with l in Hpeek.
-  destruct l as [|nm src]; [inversion Hpeek|].
-  change (skipn 2 (t :: nm :: src)) with src in *.
-  destruct (signature_of (ttext nm)) as [nr no] eqn:Esig.
-  replace ((-1 <? 0)%Z && (-1 <? 0)%Z) with true in Hpeek by reflexivity.
-  apply bind_ok in Hpeek. destruct Hpeek as ([pargs psrc] & Hargs & Hpeek).
-  inversion Hpeek; subst cname pargs psrc. clear Hpeek.
-  assert (Hbe : is_beginend nm = true) by (unfold is_beginend; rewrite Hend; apply orb_true_r).
-  destruct (beginend_plain nm Hbe) as [Hsig Hspec]. rewrite Hsig in Esig. inversion Esig; subst nr no.
-  pose proof (h_names _ _ Hy) as Hn. cbn [clean_names] in Hn. rewrite Ht, Hbe in Hn.
-  apply andb_true_iff in Hn. destruct Hn as [Hn _].
-  apply andb_true_iff in Hn. destruct Hn as [_ Hnok].
-  unfold head_after_spacer in Hc0. unfold after_spacer in Hnok. rewrite Esp in Hc0, Hnok.
-  cbn [snd] in Hc0, Hnok. inversion Hc0; subst c0.
-  unfold name_ok in Hnok. rewrite (opener_of_kind c Hk0) in Hnok.
-  destruct src3 as [|n [|cl src']]; try discriminate Hnok.
-  pose proof Hnok as Hs. unfold simple_name_group in Hs.
-  apply andb_true_iff in Hs. destruct Hs as [Hs Hcl].
-  apply andb_true_iff in Hs. destruct Hs as [Hs _].
-  apply andb_true_iff in Hs. destruct Hs as [Ho Htxt].
-  assert (Hkc : group_kind_of_begin (tcat c) = Some GBrace).
-  { apply is_tc_eq in Ho. rewrite Ho. exact gk_brace. }
-  destruct (args_simple_name f1 true _ src c n cl src' _ _
-              ltac:(unfold after_spacer; rewrite Esp; reflexivity) Hnok Hargs) as (args' & Ea0).
-  inversion Ea0; subst a0 cargs. clear Ea0.
-  assert (Has : arg_string (EGroup GBrace [EText n] (tpos c)) = ttext n).
-  { unfold arg_string, estr_list. simpl. apply app_nil_r. }
-  rewrite Has in Hname. apply str_eqb_eq in Hname. subst name.
-  destruct (simple_group_read _ _ _ _ _ _ _ _ _ Hkc Htxt Hcl Harg) as [_ ->].
-  pose proof (h_wf _ _ Hy) as W. inversion W as [|? ? Wt W1]; subst.
-  inversion W1 as [|? ? Wnm W2]; subst. clear W W1.
-  assert (Wsrc : Forall tok_wf (c :: n :: cl :: src')).
-  { apply read_spacer_cases in Esp. destruct Esp as [->|(sp & -> & _)]; [exact W2|].
-    inversion W2; assumption. }
-  inversion Wsrc as [|? ? Wc W3]; subst. inversion W3 as [|? ? _ W4]; subst.
-  inversion W4 as [|? ? Wcl _]; subst.
-  assert (Tt : ttext t = [backslash]) by (apply Wt; apply is_tc_eq; exact Ht).
-  assert (Tnm : ttext nm = s_end) by (apply str_eqb_eq; exact Hend).
-  assert (Tc : ttext c = group_begin GBrace).
-  { apply Wc. rewrite brace_begin_is. f_equal. symmetry. apply is_tc_eq. exact Ho. }
-  assert (Tcl : ttext cl = group_end GBrace).
-  { apply Wcl. rewrite brace_end_is. f_equal. symmetry. apply is_tc_eq. exact Hcl. }
-  exists nm, n, cl. split.
-  { apply read_spacer_cases in Esp. destruct Esp as [->|(sp & -> & Hsp)];
-      [left; reflexivity | right; exists sp; split; [exact Hsp | reflexivity]]. }
-  split.
-  { rewrite env_end_eq. unfold texts. cbn [map concat]. rewrite Tt, Tnm, Tc, Tcl, app_nil_r.
-    reflexivity. }
-  repeat (split; [assumption|]). exact Hnok.
-Qed.
+Lemma LKs_refl a : LKs a a.
+Proof. reflexivity. Qed.
 
 (* ----------------------------------- the peek at `\end{name}`, forwards *)
 
@@ -1294,9 +1253,6 @@ Proof.
   - apply noarg_after in H. rewrite after_spacer_cons, Es in H.
     destruct H as [H|(c & l & H & H1 & H2)]; [discriminate H|]. inversion H; subst. auto.
 Qed.
-
-Lemma LKs_refl a : LKs a a.
-Proof. reflexivity. Qed.
 
 Lemma end_plain nm : ttext nm = s_end ->
   signature_of (ttext nm) = ((-1)%Z, (-1)%Z) /\ mem_str (ttext nm) Tables.special_commands = false.
@@ -1392,6 +1348,525 @@ Proof.
   destruct f5 as [|f6]; [discriminate He|]. exists f6. reflexivity.
 Qed.
 
+(* ------------------------------------ shallow peeks at `\item` / `\end` *)
+
+Lemma stop_plain s : str_eqb s s_end || str_eqb s s_item = true ->
+  signature_of s = ((-1)%Z, (-1)%Z) /\ mem_str s Tables.special_commands = false.
+Proof.
+  intro H. apply orb_true_iff in H. destruct H as [H|H]; apply str_eqb_eq in H; subst s;
+    split; vm_compute; reflexivity.
+Qed.
+
+Lemma after_spacer_inv r x l : after_spacer r = x :: l ->
+  r = x :: l \/ exists sp, is_tc TMergedSpacer sp = true /\ r = sp :: x :: l.
+Proof.
+  unfold after_spacer. destruct (read_spacer r) as [b s] eqn:E. cbn [snd]. intros ->.
+  apply read_spacer_cases in E. destruct E as [E|(sp & E & Hsp)]; [left; exact E|].
+  right. exists sp. auto.
+Qed.
+
+Lemma noarg_hd' Y : noarg Y = true ->
+  match Y with
+  | y :: _ => is_tc TBracketBegin y = false /\ is_tc TGroupBegin y = false
+  | [] => True
+  end.
+Proof. destruct Y as [|y Y']; [trivial|]. apply noarg_hd. Qed.
+
+(* nothing follows the name: the peek returns no arguments *)
+Lemma peek_plain_fwd f m t nm r :
+  str_eqb (ttext nm) s_end || str_eqb (ttext nm) s_item = true -> noarg r = true ->
+  read_command (3 + f) (-1) (-1) 1 true m (t :: nm :: r) = Ok ((ttext nm, []), r).
+Proof.
+  intros Hn Hr. destruct (stop_plain _ Hn) as [Hsig Hspec].
+  rewrite peek_shift. change (3 + f)%nat with (S (S (S f))).
+  cbn [read_command]. change (skipn 0 (nm :: r)) with (nm :: r).
+  replace (length (nm :: r) <? 0)%nat with false by reflexivity.
+  cbv beta iota. rewrite Hspec.
+  replace ((-1 <? 0)%Z && (-1 <? 0)%Z) with true by reflexivity. rewrite Hsig.
+  cbn [read_args]. replace ((-1 =? 0)%Z && (-1 =? 0)%Z) with false by reflexivity.
+  assert (Hc : after_spacer r = [] \/
+               exists c l, after_spacer r = c :: l /\ is_tc TGroupBegin c = false /\
+                           is_tc TBracketBegin c = false).
+  { unfold noarg, hdc in Hr. destruct (after_spacer r) as [|c l]; [auto|]. right.
+    exists c, l. split; [reflexivity|]. cbn [hd_error option_map] in Hr. unfold is_tc.
+    destruct (tcat c); try discriminate Hr; split; reflexivity. }
+  rewrite (opt_stop_F _ [] (-1) m r r (LKs_refl r)).
+  2:{ right. destruct Hc as [E|(c & l & E & _ & G)]; [left; exact E|]. right. exists c, l. auto. }
+  cbn [bind].
+  rewrite (req_stop_F _ [] (-1) m r r (LKs_refl r)).
+  2:{ right. destruct Hc as [E|(c & l & E & G & _)]; [left; exact E|]. right. exists c, l. auto. }
+  cbn [bind]. pose proof (noarg_hd' r Hr) as Hh.
+  destruct r as [|y r']; [reflexivity|]. destruct Hh as [B1 B2]. rewrite B1. cbn [bind].
+  rewrite B2. reflexivity.
+Qed.
+
+Lemma peek_plain_fuel f m t nm r x :
+  read_command f (-1) (-1) 1 true m (t :: nm :: r) = Ok x ->
+  str_eqb (ttext nm) s_end || str_eqb (ttext nm) s_item = true ->
+  exists f', f = (3 + f')%nat.
+Proof.
+  intros H Hn. destruct (stop_plain _ Hn) as [Hsig Hspec]. rewrite peek_shift in H.
+  destruct f as [|f1]; [discriminate H|]. cbn [read_command] in H.
+  change (skipn 0 (nm :: r)) with (nm :: r) in H.
+  replace (length (nm :: r) <? 0)%nat with false in H by reflexivity.
+  cbv beta iota in H. rewrite Hspec in H.
+  replace ((-1 <? 0)%Z && (-1 <? 0)%Z) with true in H by reflexivity. rewrite Hsig in H.
+  apply bind_ok in H. destruct H as ([a s] & Ha & _).
+  destruct f1 as [|f2]; [discriminate Ha|]. cbn [read_args] in Ha.
+  replace ((-1 =? 0)%Z && (-1 =? 0)%Z) with false in Ha by reflexivity.
+  apply bind_ok in Ha. destruct Ha as ([[a1 n1] s1] & Ho & _).
+  destruct f2 as [|f3]; [discriminate Ho|]. exists f3. reflexivity.
+Qed.
+
+(* one simple name group follows, then nothing: the peek reads exactly it *)
+Lemma peek_group_fwd f m t nm r c n cl Z :
+  ttext nm = s_end -> after_spacer r = c :: n :: cl :: Z ->
+  simple_name_group (c :: n :: cl :: Z) = true -> noarg Z = true ->
+  read_command (6 + f) (-1) (-1) 1 true m (t :: nm :: r) =
+  Ok ((ttext nm, [EGroup GBrace [EText n] (tpos c)]), Z).
+Proof.
+  intros Tnm Has Hs HZ.
+  unfold simple_name_group in Hs.
+  apply andb_true_iff in Hs. destruct Hs as [Hs Hcl].
+  apply andb_true_iff in Hs. destruct Hs as [Hs _].
+  apply andb_true_iff in Hs. destruct Hs as [Hc Hn].
+  assert (Hstop : str_eqb (ttext nm) s_end || str_eqb (ttext nm) s_item = true).
+  { rewrite Tnm. reflexivity. }
+  destruct (stop_plain _ Hstop) as [Hsig Hspec].
+  assert (Hkc : group_kind_of_begin (tcat c) = Some GBrace).
+  { apply is_tc_eq in Hc. rewrite Hc. exact gk_brace. }
+  assert (Hcb : is_tc TBracketBegin c = false) by (eapply is_tc_excl; [exact Hc | discriminate]).
+  assert (Esp : exists b, read_spacer r = (b, c :: n :: cl :: Z)).
+  { unfold after_spacer in Has. destruct (read_spacer r) as [b s]. cbn [snd] in Has. subst s.
+    eauto. }
+  destruct Esp as (b & Esp).
+  assert (Hr : exists x0 xs, r = x0 :: xs).
+  { destruct (after_spacer_inv _ _ _ Has) as [E|(sp & _ & E)]; rewrite E; eauto. }
+  destruct Hr as (x0 & xs & Hr).
+  rewrite peek_shift. change (6 + f)%nat with (S (S (S (S (S (S f)))))).
+  cbn [read_command]. change (skipn 0 (nm :: r)) with (nm :: r).
+  replace (length (nm :: r) <? 0)%nat with false by reflexivity.
+  cbv beta iota. rewrite Hspec.
+  replace ((-1 <? 0)%Z && (-1 <? 0)%Z) with true by reflexivity. rewrite Hsig.
+  cbn [read_args]. replace ((-1 =? 0)%Z && (-1 =? 0)%Z) with false by reflexivity.
+  rewrite (opt_stop_F _ [] (-1) m r r (LKs_refl r)).
+  2:{ right. right. exists c, (n :: cl :: Z). auto. }
+  cbn [bind].
+  (* required pass: one step by hand (a spacer may precede the group) *)
+  assert (Hreq : read_arg_required (S (S (S (S f)))) [] (-1) true m r =
+                 read_arg_required (S (S (S f))) ([] ++ [EGroup GBrace [EText n] (tpos c)])
+                                   (-1 - 1) true m Z).
+  { cbn [read_arg_required]. replace (-1 =? 0)%Z with false by reflexivity.
+    rewrite Hr. rewrite <- Hr. rewrite Esp, Hc.
+    rewrite (simple_group_fwd f c m n cl Z Hkc Hn Hcl). reflexivity. }
+  rewrite Hreq. cbn [app]. replace (-1 - 1)%Z with (-2)%Z by reflexivity.
+  rewrite (req_stop_F _ [EGroup GBrace [EText n] (tpos c)] (-2) m Z Z (LKs_refl Z)).
+  2:{ right. destruct (noarg_after Z HZ) as [E|(c2 & l2 & E & G1 & _)]; [left; exact E|].
+      right. exists c2, l2. auto. }
+  cbn [bind]. pose proof (noarg_hd' Z HZ) as Hh.
+  destruct Z as [|y Z']; [reflexivity|]. destruct Hh as [B1 B2]. rewrite B1. cbn [bind].
+  rewrite B2. reflexivity.
+Qed.
+
+(* what pvk = Some k says about the tokens *)
+Lemma pvk_stop t nm r k :
+  is_tc TEscape t = true ->
+  str_eqb (ttext nm) s_end || str_eqb (ttext nm) s_item = true ->
+  pvk (t :: nm :: r) = Some k ->
+  (k = KPlain /\ noarg r = true) \/
+  (k = KGroup /\ ttext nm = s_end /\ exists c n cl Z,
+     after_spacer r = c :: n :: cl :: Z /\ simple_name_group (c :: n :: cl :: Z) = true /\
+     noarg Z = true) \/
+  (k = KBracket /\ ttext nm = s_item /\ exists c n cl Z,
+     after_spacer r = c :: n :: cl :: Z /\ simple_bracket (c :: n :: cl :: Z) = true /\
+     noarg Z = true).
+Proof.
+  intros Et Hn H. cbn [pvk] in H. rewrite Et in H.
+  destruct (str_eqb (ttext nm) s_item) eqn:Ei.
+  - unfold itemk in H. destruct (noarg r) eqn:En; [inversion H; left; auto|].
+    destruct (after_spacer r) as [|c [|n [|cl Z]]] eqn:Ea; try discriminate H.
+    destruct (simple_bracket (c :: n :: cl :: Z) && noarg Z) eqn:E; [|discriminate H].
+    inversion H. apply andb_true_iff in E. destruct E as [E1 E2]. right. right.
+    split; [reflexivity|]. split; [apply str_eqb_eq; exact Ei|]. exists c, n, cl, Z. auto.
+  - rewrite orb_false_r in Hn. rewrite Hn in H. unfold endk in H.
+    destruct (after_spacer r) as [|c l'] eqn:Ea.
+    + inversion H. left. split; [reflexivity|]. unfold noarg. rewrite Ea. reflexivity.
+    + destruct (is_opener c) eqn:Eo.
+      * destruct l' as [|n [|cl Z]]; try discriminate H.
+        destruct (simple_name_group (c :: n :: cl :: Z) && noarg Z) eqn:E; [|discriminate H].
+        inversion H. apply andb_true_iff in E. destruct E as [E1 E2]. right. left.
+        split; [reflexivity|]. split; [apply str_eqb_eq; exact Hn|].
+        exists c, n, cl, Z. auto.
+      * inversion H. left. split; [reflexivity|]. unfold noarg, hdc. rewrite Ea.
+        cbn [hd_error option_map]. unfold is_opener, is_tc in Eo.
+        destruct (tcat c); try reflexivity; discriminate Eo.
+Qed.
+
+Lemma bracket_end_is : group_tok_end GBracket = Some TBracketEnd.
+Proof. vm_compute. reflexivity. Qed.
+
+Lemma simple_bracket_fwd f c m n cl Y :
+  group_kind_of_begin (tcat c) = Some GBracket ->
+  is_tc TText n = true -> is_tc TBracketEnd cl = true ->
+  read_arg (S (S (S f))) c true m (n :: cl :: Y) = Ok (EGroup GBracket [EText n] (tpos c), Y).
+Proof.
+  intros Hk Hn Hcl. destruct (text_not_closer n Hn) as (_ & N2 & N3 & N4).
+  assert (N1 : is_group_end GBracket n = false).
+  { apply is_tc_eq in Hn. unfold is_group_end, is_tc. rewrite bracket_end_is, Hn. reflexivity. }
+  assert (Hce : is_group_end GBracket cl = true).
+  { unfold is_group_end. rewrite bracket_end_is. exact Hcl. }
+  cbn [read_arg]. rewrite Hk. cbn [read_arg_loop]. rewrite N1. cbn [read_expr].
+  rewrite N2, N3, N4. cbn [bind app]. rewrite Hce. reflexivity.
+Qed.
+
+Lemma simple_bracket_parts c n cl Z : simple_bracket (c :: n :: cl :: Z) = true ->
+  is_tc TBracketBegin c = true /\ is_tc TText n = true /\ is_tc TBracketEnd cl = true.
+Proof.
+  unfold simple_bracket. intro H. apply andb_true_iff in H. destruct H as [H H3].
+  apply andb_true_iff in H. destruct H as [H1 H2]. auto.
+Qed.
+
+(* `\item` + one simple label, then nothing: the peek reads exactly the label *)
+Lemma peek_bracket_fwd f m t nm r c n cl Z :
+  ttext nm = s_item -> after_spacer r = c :: n :: cl :: Z ->
+  simple_bracket (c :: n :: cl :: Z) = true -> noarg Z = true ->
+  read_command (6 + f) (-1) (-1) 1 true m (t :: nm :: r) =
+  Ok ((ttext nm, [EGroup GBracket [EText n] (tpos c)]), Z).
+Proof.
+  intros Tnm Has Hs HZ. destruct (simple_bracket_parts _ _ _ _ Hs) as (Hc & Hn & Hcl).
+  assert (Hstop : str_eqb (ttext nm) s_end || str_eqb (ttext nm) s_item = true).
+  { rewrite Tnm. reflexivity. }
+  destruct (stop_plain _ Hstop) as [Hsig Hspec].
+  assert (Hkc : group_kind_of_begin (tcat c) = Some GBracket).
+  { apply is_tc_eq in Hc. rewrite Hc. exact gk_bracket. }
+  assert (Esp : exists b, read_spacer r = (b, c :: n :: cl :: Z)).
+  { unfold after_spacer in Has. destruct (read_spacer r) as [b s]. cbn [snd] in Has. subst s.
+    eauto. }
+  destruct Esp as (b & Esp).
+  rewrite peek_shift. change (6 + f)%nat with (S (S (S (S (S (S f)))))).
+  cbn [read_command]. change (skipn 0 (nm :: r)) with (nm :: r).
+  replace (length (nm :: r) <? 0)%nat with false by reflexivity.
+  cbv beta iota. rewrite Hspec.
+  replace ((-1 <? 0)%Z && (-1 <? 0)%Z) with true by reflexivity. rewrite Hsig.
+  cbn [read_args]. replace ((-1 =? 0)%Z && (-1 =? 0)%Z) with false by reflexivity.
+  (* optional pass: one step by hand *)
+  assert (Hopt : read_arg_optional (S (S (S (S f)))) [] (-1) true m r =
+                 read_arg_optional (S (S (S f))) ([] ++ [EGroup GBracket [EText n] (tpos c)])
+                                   (-1 - 1) true m Z).
+  { cbn [read_arg_optional]. replace (-1 =? 0)%Z with false by reflexivity.
+    rewrite Esp, Hc. rewrite (simple_bracket_fwd f c m n cl Z Hkc Hn Hcl). reflexivity. }
+  rewrite Hopt. cbn [app]. replace (-1 - 1)%Z with (-2)%Z by reflexivity.
+  destruct (noarg_after Z HZ) as [E|(c2 & l2 & E & G1 & G2)].
+  - rewrite (opt_stop_F _ _ (-2) m Z Z (LKs_refl Z)); [|right; left; exact E]. cbn [bind].
+    rewrite (req_stop_F _ _ (-1) m Z Z (LKs_refl Z)); [|right; left; exact E]. cbn [bind].
+    pose proof (noarg_hd' Z HZ) as Hh.
+    destruct Z as [|y Z']; [reflexivity|]. destruct Hh as [B1 B2]. rewrite B1. cbn [bind].
+    rewrite B2. reflexivity.
+  - rewrite (opt_stop_F _ _ (-2) m Z Z (LKs_refl Z)); [|right; right; exists c2, l2; auto].
+    cbn [bind].
+    rewrite (req_stop_F _ _ (-1) m Z Z (LKs_refl Z)); [|right; right; exists c2, l2; auto].
+    cbn [bind]. pose proof (noarg_hd' Z HZ) as Hh.
+    destruct Z as [|y Z']; [reflexivity|]. destruct Hh as [B1 B2]. rewrite B1. cbn [bind].
+    rewrite B2. reflexivity.
+Qed.
+
+Lemma peek_fuel_bracket f m t nm pre c n cl rest r :
+  (pre = [] \/ exists sp, is_tc TMergedSpacer sp = true /\ pre = [sp]) ->
+  ttext nm = s_item -> is_tc TBracketBegin c = true -> is_tc TText n = true ->
+  read_command f (-1) (-1) 1 true m (t :: nm :: pre ++ c :: n :: cl :: rest) = Ok r ->
+  exists f', f = (6 + f')%nat.
+Proof.
+  intros Hpre Tnm Hc Hn H.
+  assert (Hstop : str_eqb (ttext nm) s_end || str_eqb (ttext nm) s_item = true).
+  { rewrite Tnm. reflexivity. }
+  destruct (stop_plain _ Hstop) as [Hsig Hspec].
+  assert (Hkc : group_kind_of_begin (tcat c) = Some GBracket).
+  { apply is_tc_eq in Hc. rewrite Hc. exact gk_bracket. }
+  assert (Hop : is_opener c = true) by (unfold is_opener; rewrite Hc; apply orb_true_r).
+  assert (N1 : is_group_end GBracket n = false).
+  { apply is_tc_eq in Hn. unfold is_group_end, is_tc. rewrite bracket_end_is, Hn. reflexivity. }
+  set (X := pre ++ c :: n :: cl :: rest) in *.
+  assert (Esp : exists b, read_spacer X = (b, c :: n :: cl :: rest)).
+  { unfold X. destruct Hpre as [->|(sp & Hsp & ->)]; cbn [app].
+    - exists false. apply opener_read_spacer. exact Hop.
+    - exists true. unfold read_spacer. rewrite Hsp. reflexivity. }
+  destruct Esp as (b & Esp).
+  rewrite peek_shift in H.
+  destruct f as [|f1]; [discriminate H|]. cbn [read_command] in H.
+  change (skipn 0 (nm :: X)) with (nm :: X) in H.
+  replace (length (nm :: X) <? 0)%nat with false in H by reflexivity.
+  cbv beta iota in H. rewrite Hspec in H.
+  replace ((-1 <? 0)%Z && (-1 <? 0)%Z) with true in H by reflexivity. rewrite Hsig in H.
+  apply bind_ok in H. destruct H as ([a s] & Ha & _).
+  destruct f1 as [|f2]; [discriminate Ha|]. cbn [read_args] in Ha.
+  replace ((-1 =? 0)%Z && (-1 =? 0)%Z) with false in Ha by reflexivity.
+  apply bind_ok in Ha. destruct Ha as ([[a1 n1] s1] & Ho & _).
+  destruct f2 as [|f3]; [discriminate Ho|]. cbn [read_arg_optional] in Ho.
+  replace (-1 =? 0)%Z with false in Ho by reflexivity. rewrite Esp, Hc in Ho.
+  apply bind_ok in Ho. destruct Ho as ([g s3] & Hg & _).
+  destruct f3 as [|f4]; [discriminate Hg|]. cbn [read_arg] in Hg. rewrite Hkc in Hg.
+  destruct f4 as [|f5]; [discriminate Hg|]. cbn [read_arg_loop] in Hg. rewrite N1 in Hg.
+  apply bind_ok in Hg. destruct Hg as ([e s4] & He & _).
+  destruct f5 as [|f6]; [discriminate He|]. exists f6. reflexivity.
+Qed.
+
+(* a stopping peek of the first run is matched by the second run *)
+Lemma stop_peek_B f m t src Y x :
+  is_tc TEscape t = true ->
+  read_command f (-1) (-1) 1 true m (t :: src) = Ok x ->
+  str_eqb (name_of src) s_end || str_eqb (name_of src) s_item = true ->
+  LK (t :: src) Y -> frag (t :: src) = true -> PV (t :: src) Y ->
+  exists a' r', read_command f (-1) (-1) 1 true m Y = Ok ((name_of src, a'), r').
+Proof.
+  intros Et Hpeek Hn Hlk Hf Hpv.
+  destruct src as [|nm r]; [discriminate Hn|]. cbn [name_of] in *.
+  destruct (LK_hd2 _ _ _ _ _ Hlk eq_refl Et) as (r' & ->).
+  destruct (frag_pvk _ Hf) as (k & Hk). pose proof (Hpv k Hk) as Hk'.
+  destruct (pvk_stop _ _ _ _ Et Hn Hk)
+    as [(-> & _)|[(-> & Tnm & c & n & cl & Z & Ha & Hs & HZ)|(-> & Tnm & c & n & cl & Z & Ha & Hs & HZ)]].
+  - destruct (pvk_stop _ _ _ _ Et Hn Hk') as [(_ & Hr')|[(E & _)|(E & _)]];
+      [|discriminate E|discriminate E].
+    destruct (peek_plain_fuel _ _ _ _ _ _ Hpeek Hn) as (f' & ->).
+    rewrite (peek_plain_fwd f' m t nm r' Hn Hr'). eauto.
+  - destruct (pvk_stop _ _ _ _ Et Hn Hk')
+      as [(E & _)|[(_ & _ & c' & n' & cl' & Z' & Ha' & Hs' & HZ')|(E & _)]];
+      [discriminate E| |discriminate E].
+    assert (Hfuel : exists f', f = (6 + f')%nat).
+    { pose proof Hs as Hs0. unfold simple_name_group in Hs0.
+      apply andb_true_iff in Hs0. destruct Hs0 as [Hs0 Hcl].
+      apply andb_true_iff in Hs0. destruct Hs0 as [Hs0 _].
+      apply andb_true_iff in Hs0. destruct Hs0 as [Hc Hnn].
+      destruct (after_spacer_inv _ _ _ Ha) as [E|(sp & Hsp & E)]; rewrite E in Hpeek.
+      - eapply (peek_fuel f m t nm [] c n cl Z); [left; reflexivity | exact Tnm | exact Hc
+                                                    | exact Hnn | exact Hpeek].
+      - eapply (peek_fuel f m t nm [sp] c n cl Z);
+          [right; exists sp; auto | exact Tnm | exact Hc | exact Hnn | exact Hpeek]. }
+    destruct Hfuel as (f' & ->).
+    rewrite (peek_group_fwd f' m t nm r' c' n' cl' Z' Tnm Ha' Hs' HZ'). eauto.
+  - destruct (pvk_stop _ _ _ _ Et Hn Hk')
+      as [(E & _)|[(E & _)|(_ & _ & c' & n' & cl' & Z' & Ha' & Hs' & HZ')]];
+      [discriminate E|discriminate E|].
+    assert (Hfuel : exists f', f = (6 + f')%nat).
+    { destruct (simple_bracket_parts _ _ _ _ Hs) as (Hc & Hnn & _).
+      destruct (after_spacer_inv _ _ _ Ha) as [E|(sp & Hsp & E)]; rewrite E in Hpeek.
+      - eapply (peek_fuel_bracket f m t nm [] c n cl Z);
+          [left; reflexivity | exact Tnm | exact Hc | exact Hnn | exact Hpeek].
+      - eapply (peek_fuel_bracket f m t nm [sp] c n cl Z);
+          [right; exists sp; auto | exact Tnm | exact Hc | exact Hnn | exact Hpeek]. }
+    destruct Hfuel as (f' & ->).
+    rewrite (peek_bracket_fwd f' m t nm r' c' n' cl' Z' Tnm Ha' Hs' HZ'). eauto.
+Qed.
+
+Lemma fp_item_S f : fp_all f -> fp_item (S f).
+Proof.
+  intros (Ce & Ci & Cm & Cv & Cc & Ca & Co & Cr & Cg & Cl).
+  unfold fp_item. intros acc toks es rest Hy H. simpl in H.
+  assert (Hstep : forall es rest,
+    bind (read_expr f [] true MNonMath toks)
+         (fun '(e, src1) => read_item_loop f (acc ++ [e]) src1) = Ok (es, rest) ->
+    exists used new, toks = used ++ rest /\ es = acc ++ new /\ (forallb nobare new = true ->
+      exists kept, Kept used kept /\ estr_list new = texts kept /\ LKP used kept /\
+        (forall g Y r, LK rest Y ->
+          bind (read_expr g [] true MNonMath (kept ++ Y))
+               (fun '(e, src1) => read_item_loop g (acc ++ [e]) src1) = Ok r -> r = (es, Y)) /\
+        (frag toks = true -> forall Y, LKp rest Y ->
+          bind (read_expr f [] true MNonMath (kept ++ Y))
+               (fun '(e, src1) => read_item_loop f (acc ++ [e]) src1) = Ok (es, Y)) /\
+        PVP used kept rest)).
+  { intros es' rest' H'. apply bind_ok in H'. destruct H' as ([e1 src1] & He & H').
+    apply Ce in He; [|exact (no_skip SK) | exact Hy]. destruct He as (u1 & Eu1 & C1).
+    apply Ci in H'; [|rewrite Eu1 in Hy; eapply Hyp_suffix; exact Hy].
+    destruct H' as (u2 & new & Eu2 & -> & C2).
+    exists (u1 ++ u2), (e1 :: new).
+    split; [rewrite Eu1, Eu2, <- app_assoc; reflexivity|].
+    split; [rewrite <- app_assoc; reflexivity|].
+    intro Hn. simpl in Hn. apply andb_true_iff in Hn. destruct Hn as [Hn1 Hn2].
+    destruct (C1 Hn1) as (k1 & K1 & T1 & L1 & D1 & U1 & P1).
+    destruct (C2 Hn2) as (k2 & K2 & T2 & L2 & D2 & U2 & P2).
+    exists (k1 ++ k2). split; [apply Kept_app; assumption|]. split.
+    { change (estr_list (e1 :: new)) with (estr e1 ++ estr_list new).
+      rewrite T1, T2, texts_app. reflexivity. }
+    split; [apply LKP_app; assumption|]. split.
+    { intros g Y r Hlk HB. rewrite <- app_assoc in HB.
+      apply bind_ok in HB. destruct HB as ([e1' s1'] & HB1 & HB2).
+      apply D1 in HB1; [|rewrite Eu2; apply L2; exact Hlk]. inversion HB1; subst e1' s1'.
+      apply D2 in HB2; [exact HB2 | exact Hlk]. }
+    split; [|eapply PVP_app; eassumption].
+    intros Hf Y (Hlk & Hpv). rewrite <- app_assoc.
+    rewrite (U1 Hf (k2 ++ Y));
+      [|split; rewrite Eu2; [apply L2; exact Hlk | apply P2; assumption]].
+    cbn [bind]. apply U2; [rewrite Eu1 in Hf; eapply frag_suffix; exact Hf | split; assumption]. }
+  destruct toks as [|t src].
+  { inversion H; subst es rest. exists [], [].
+    split; [reflexivity|]. split; [rewrite app_nil_r; reflexivity|]. intros _.
+    exists []. split; [constructor|]. split; [reflexivity|]. split; [apply LKP_nil|].
+    split.
+    { intros g Y r Hlk HB. cbn [app] in HB.
+      apply LK_nil_inv in Hlk. subst Y. destruct g as [|g]; [discriminate HB|].
+      cbn [read_item_loop] in HB. inversion HB. reflexivity. }
+    split; [|apply PVP_nil].
+    intros _ Y (Hlk & _). apply LK_nil_inv in Hlk. subst Y. reflexivity. }
+  destruct (is_tc TEscape t) eqn:Et.
+  - apply bind_ok in H. destruct H as ([[cname cargs] crest] & Hpeek & H).
+    pose proof (peek_name' _ _ _ _ _ _ _ _ _ Hpeek) as Ecn.
+    destruct (str_eqb cname s_end || str_eqb cname s_item) eqn:Estop.
+    + inversion H; subst es rest. exists [], [].
+      split; [reflexivity|]. split; [rewrite app_nil_r; reflexivity|]. intros _.
+      exists []. split; [constructor|]. split; [reflexivity|]. split; [apply LKP_nil|].
+      split.
+      { intros g Y r Hlk HB. cbn [app] in HB.
+        destruct (LK_hd _ _ _ _ Hlk eq_refl) as (l' & EL).
+        destruct g as [|g]; [discriminate HB|]. cbn [read_item_loop] in HB.
+        rewrite EL in HB. rewrite Et in HB. rewrite <- EL in HB.
+        apply bind_ok in HB. destruct HB as ([[cn' a'] r'] & HP & HB).
+        rewrite (LK_peek _ _ _ _ _ _ _ _ _ _ _ _ _ _ _ Hlk Et Hpeek HP), Estop in HB.
+        inversion HB. reflexivity. }
+      split; [|apply PVP_nil].
+      intros Hf Y (Hlk & Hpv). cbn [app].
+      destruct (LK_hd _ _ _ _ Hlk eq_refl) as (l' & EL).
+      rewrite Ecn in Estop.
+      destruct (stop_peek_B _ _ _ _ _ _ Et Hpeek Estop Hlk Hf Hpv) as (a' & r' & HP).
+      cbn [read_item_loop]. rewrite EL. rewrite Et. rewrite <- EL. rewrite HP. cbn [bind].
+      rewrite Estop. reflexivity.
+    + destruct (Hstep _ _ H) as (used & new & Eu & En & C). exists used, new.
+      split; [exact Eu|]. split; [exact En|]. intro Hn.
+      destruct (C Hn) as (kept & K & T & L & D & U & P). exists kept.
+      repeat (split; [assumption|]). split.
+      { intros g Y r Hlk HB.
+        assert (Hlk' : LK (t :: src) (kept ++ Y)) by (rewrite Eu; apply L; exact Hlk).
+        destruct (LK_hd _ _ _ _ Hlk' eq_refl) as (l' & EL).
+        destruct g as [|g]; [discriminate HB|]. cbn [read_item_loop] in HB.
+        rewrite EL in HB. rewrite Et in HB. rewrite <- EL in HB.
+        apply bind_ok in HB. destruct HB as ([[cn' a'] r'] & HP & HB).
+        rewrite (LK_peek _ _ _ _ _ _ _ _ _ _ _ _ _ _ _ Hlk' Et Hpeek HP), Estop in HB.
+        eapply D; eassumption. }
+      split; [|exact P].
+      intros Hf Y Hlkp. pose proof Hlkp as (Hlk & Hpv).
+      assert (Hlk' : LK (t :: src) (kept ++ Y)) by (rewrite Eu; apply L; exact Hlk).
+      destruct (LK_hd _ _ _ _ Hlk' eq_refl) as (l' & EL).
+      pose proof (U Hf Y Hlkp) as HU. pose proof HU as HU0.
+      apply bind_ok in HU0. destruct HU0 as (x & Hx & _). rewrite EL in Hx.
+      destruct (expr_peek _ _ _ _ _ _ Hx Et) as ([[cn' a'] r'] & HP). rewrite <- EL in HP.
+      cbn [read_item_loop]. rewrite EL. rewrite Et. rewrite <- EL. rewrite HP. cbn [bind].
+      rewrite (LK_peek _ _ _ _ _ _ _ _ _ _ _ _ _ _ _ Hlk' Et Hpeek HP), Estop. exact HU.
+  - destruct (is_tc TGroupEnd t) eqn:Eg.
+    + inversion H; subst es rest. exists [], [].
+      split; [reflexivity|]. split; [rewrite app_nil_r; reflexivity|]. intros _.
+      exists []. split; [constructor|]. split; [reflexivity|]. split; [apply LKP_nil|].
+      split.
+      { intros g Y r Hlk HB. cbn [app] in HB.
+        destruct (LK_hd _ _ _ _ Hlk eq_refl) as (l' & EL).
+        destruct g as [|g]; [discriminate HB|]. cbn [read_item_loop] in HB.
+        rewrite EL in HB. rewrite Et, Eg in HB. rewrite <- EL in HB.
+        inversion HB. reflexivity. }
+      split; [|apply PVP_nil].
+      intros _ Y (Hlk & _). cbn [app].
+      destruct (LK_hd _ _ _ _ Hlk eq_refl) as (l' & EL).
+      cbn [read_item_loop]. rewrite EL. rewrite Et, Eg. reflexivity.
+    + destruct (Hstep _ _ H) as (used & new & Eu & En & C). exists used, new.
+      split; [exact Eu|]. split; [exact En|]. intro Hn.
+      destruct (C Hn) as (kept & K & T & L & D & U & P). exists kept.
+      repeat (split; [assumption|]). split.
+      { intros g Y r Hlk HB.
+        assert (Hlk' : LK (t :: src) (kept ++ Y)) by (rewrite Eu; apply L; exact Hlk).
+        destruct (LK_hd _ _ _ _ Hlk' eq_refl) as (l' & EL).
+        destruct g as [|g]; [discriminate HB|]. cbn [read_item_loop] in HB.
+        rewrite EL in HB. rewrite Et, Eg in HB. rewrite <- EL in HB.
+        eapply D; eassumption. }
+      split; [|exact P].
+      intros Hf Y Hlkp. pose proof Hlkp as (Hlk & Hpv).
+      assert (Hlk' : LK (t :: src) (kept ++ Y)) by (rewrite Eu; apply L; exact Hlk).
+      destruct (LK_hd _ _ _ _ Hlk' eq_refl) as (l' & EL).
+      cbn [read_item_loop]. rewrite EL. rewrite Et, Eg. rewrite <- EL. apply U; assumption.
+Qed.
+
+(* closing an environment (cf. ReaderCons.finish_end): exactly escape, `end`,
+   optional spacer, `{`, name, `}` are consumed; all but the spacer are kept *)
+Lemma finish_end_kept f m t l cname a0 cargs crest name b c src3 g rest :
+  Hyp (t :: l) -> is_tc TEscape t = true ->
+  read_command f (-1) (-1) 1 true m (t :: l) = Ok ((cname, a0 :: cargs), crest) ->
+  str_eqb cname s_end = true -> str_eqb (arg_string a0) name = true ->
+  read_spacer (skipn 2 (t :: l)) = (b, c :: src3) ->
+  read_arg f c true m src3 = Ok (g, rest) ->
+  exists nm n cl,
+    (t :: l = [t; nm; c; n; cl] ++ rest \/
+     exists sp, is_tc TMergedSpacer sp = true /\ t :: l = [t; nm; sp; c; n; cl] ++ rest) /\
+    env_end name = texts [t; nm; c; n; cl] /\ ttext nm = s_end /\
+    is_tc TGroupBegin c = true /\ is_tc TText n = true /\ is_tc TGroupEnd cl = true /\
+    simple_name_group (c :: n :: cl :: rest) = true /\ ttext n = name.
+Proof.
+  intros Hy Ht Hpeek Hend Hname Esp Harg.
+  pose proof (end_peek_opens _ _ _ _ _ _ _ _ _ Hpeek Hend) as (c0 & Hc0 & Hk0).
+  destruct f as [|f1]; [discriminate|]. cbn [read_command] in Hpeek.
+  replace (length (t :: l) <? 1)%nat with false in Hpeek by reflexivity.
+  change (skipn 1 (t :: l)) with l in Hpeek.
+  destruct l as [|nm src]; [inversion Hpeek|].
+  change (skipn 2 (t :: nm :: src)) with src in *.
+  destruct (signature_of (ttext nm)) as [nr no] eqn:Esig.
+  replace ((-1 <? 0)%Z && (-1 <? 0)%Z) with true in Hpeek by reflexivity.
+  apply bind_ok in Hpeek. destruct Hpeek as ([pargs psrc] & Hargs & Hpeek).
+  inversion Hpeek; subst cname pargs psrc. clear Hpeek.
+  assert (Hbe : is_beginend nm = true) by (unfold is_beginend; rewrite Hend; apply orb_true_r).
+  destruct (beginend_plain nm Hbe) as [Hsig Hspec]. rewrite Hsig in Esig. inversion Esig; subst nr no.
+  pose proof (h_names _ _ Hy) as Hn. cbn [clean_names] in Hn. rewrite Ht, Hbe in Hn.
+  apply andb_true_iff in Hn. destruct Hn as [Hn _].
+  apply andb_true_iff in Hn. destruct Hn as [_ Hnok].
+  unfold head_after_spacer in Hc0. unfold after_spacer in Hnok. rewrite Esp in Hc0, Hnok.
+  cbn [snd] in Hc0, Hnok. inversion Hc0; subst c0.
+  unfold name_ok in Hnok. rewrite (opener_of_kind c Hk0) in Hnok.
+  destruct src3 as [|n [|cl src']]; try discriminate Hnok.
+  pose proof Hnok as Hs. unfold simple_name_group in Hs.
+  apply andb_true_iff in Hs. destruct Hs as [Hs Hcl].
+  apply andb_true_iff in Hs. destruct Hs as [Hs _].
+  apply andb_true_iff in Hs. destruct Hs as [Ho Htxt].
+  assert (Hkc : group_kind_of_begin (tcat c) = Some GBrace).
+  { apply is_tc_eq in Ho. rewrite Ho. exact gk_brace. }
+  destruct (args_simple_name f1 true _ src c n cl src' _ _
+              ltac:(unfold after_spacer; rewrite Esp; reflexivity) Hnok Hargs) as (args' & Ea0).
+  inversion Ea0; subst a0 cargs. clear Ea0.
+  assert (Has : arg_string (EGroup GBrace [EText n] (tpos c)) = ttext n).
+  { unfold arg_string, estr_list. simpl. apply app_nil_r. }
+  rewrite Has in Hname. apply str_eqb_eq in Hname. subst name.
+  destruct (simple_group_read _ _ _ _ _ _ _ _ _ Hkc Htxt Hcl Harg) as [_ ->].
+  pose proof (h_wf _ _ Hy) as W. inversion W as [|? ? Wt W1]; subst.
+  inversion W1 as [|? ? Wnm W2]; subst. clear W W1.
+  assert (Wsrc : Forall tok_wf (c :: n :: cl :: src')).
+  { apply read_spacer_cases in Esp. destruct Esp as [->|(sp & -> & _)]; [exact W2|].
+    inversion W2; assumption. }
+  inversion Wsrc as [|? ? Wc W3]; subst. inversion W3 as [|? ? _ W4]; subst.
+  inversion W4 as [|? ? Wcl _]; subst.
+  assert (Tt : ttext t = [backslash]) by (apply Wt; apply is_tc_eq; exact Ht).
+  assert (Tnm : ttext nm = s_end) by (apply str_eqb_eq; exact Hend).
+  assert (Tc : ttext c = group_begin GBrace).
+  { apply Wc. rewrite brace_begin_is. f_equal. symmetry. apply is_tc_eq. exact Ho. }
+  assert (Tcl : ttext cl = group_end GBrace).
+  { apply Wcl. rewrite brace_end_is. f_equal. symmetry. apply is_tc_eq. exact Hcl. }
+  exists nm, n, cl. split.
+  { apply read_spacer_cases in Esp. destruct Esp as [->|(sp & -> & Hsp)];
+      [left; reflexivity | right; exists sp; split; [exact Hsp | reflexivity]]. }
+  split.
+  { rewrite env_end_eq. unfold texts. cbn [map concat]. rewrite Tt, Tnm, Tc, Tcl, app_nil_r.
+    reflexivity. }
+  repeat (split; [assumption|]). reflexivity.
+Qed.
+
+Lemma finish_PVE t nm c n cl used :
+  is_tc TEscape t = true -> ttext nm = s_end -> is_opener c = true ->
+  (used = [t; nm; c; n; cl] \/
+   exists sp, is_tc TMergedSpacer sp = true /\ used = [t; nm; sp; c; n; cl]) ->
+  forall r, PVE used [t; nm; c; n; cl] r.
+Proof.
+  intros Et Tnm Hop Hu r Y Hlk k.
+  assert (E : pvk (used ++ r) = pvk ([t; nm; c; n; cl] ++ Y)).
+  { pose proof (opener_not_spacer c Hop) as Hcs.
+    destruct Hu as [->|(sp & Hsp & ->)]; cbn [app pvk]; rewrite Et, Tnm;
+      replace (str_eqb s_end s_item) with false by reflexivity;
+      replace (str_eqb s_end s_end) with true by reflexivity;
+      unfold endk; rewrite !after_spacer_cons, ?Hsp, Hcs, Hop;
+      unfold simple_name_group; rewrite (noarg_LKs _ _ (LK_LKs _ _ Hlk)); reflexivity. }
+  rewrite E. auto.
+Qed.
+
 Lemma fp_env_S f : fp_all f -> fp_env (S f).
 Proof.
   intros (Ce & Ci & Cm & Cv & Cc & Ca & Co & Cr & Cg & Cl).
@@ -1405,10 +1880,15 @@ Proof.
      (forallb nobare new = true ->
       exists kept, Kept used kept /\ estr_list new ++ env_end name = texts kept /\
         LKU used kept /\
-        forall g Y r,
+        (forall g Y r,
           bind (read_expr g skip true m (kept ++ Y))
                (fun '(e0, src1) => read_env_loop g name args pos skip true m (acc ++ [e0]) src1)
-            = Ok r -> r = (e, Y))).
+            = Ok r -> r = (e, Y)) /\
+        (frag toks = true -> forall Y, LK rest Y ->
+          bind (read_expr f skip true m (kept ++ Y))
+               (fun '(e0, src1) => read_env_loop f name args pos skip true m (acc ++ [e0]) src1)
+            = Ok (e, Y)) /\
+        PVE used kept rest)).
   { intros e' rest' H'. apply bind_ok in H'. destruct H' as ([e1 src1] & He & H').
     apply Ce in He; [|exact Hsk | exact Hy]. destruct He as (u1 & Eu1 & C1).
     apply Cv in H'; [|exact Hsk | rewrite Eu1 in Hy; eapply Hyp_suffix; exact Hy].
@@ -1417,39 +1897,59 @@ Proof.
     split; [rewrite Eu1, Eu2, <- app_assoc; reflexivity|].
     split; [rewrite <- app_assoc; reflexivity|].
     intro Hn. simpl in Hn. apply andb_true_iff in Hn. destruct Hn as [Hn1 Hn2].
-    destruct (C1 Hn1) as (k1 & K1 & T1 & L1 & D1). destruct (C2 Hn2) as (k2 & K2 & T2 & L2 & D2).
+    destruct (C1 Hn1) as (k1 & K1 & T1 & L1 & D1 & U1 & P1).
+    destruct (C2 Hn2) as (k2 & K2 & T2 & L2 & D2 & U2 & P2).
     exists (k1 ++ k2). split; [apply Kept_app; assumption|]. split.
     { change (estr_list (e1 :: new)) with (estr e1 ++ estr_list new).
       rewrite <- app_assoc, T1, T2, texts_app. reflexivity. }
-    split; [apply LKP_LKU_app; assumption|].
-    intros g Y r HB. rewrite <- app_assoc in HB.
-    apply bind_ok in HB. destruct HB as ([e1' s1'] & HB1 & HB2).
-    apply D1 in HB1; [|rewrite Eu2; apply L2]. inversion HB1; subst e1' s1'.
-    apply D2 in HB2; [exact HB2 | exact I]. }
+    split; [apply LKP_LKU_app; assumption|]. split.
+    { intros g Y r HB. rewrite <- app_assoc in HB.
+      apply bind_ok in HB. destruct HB as ([e1' s1'] & HB1 & HB2).
+      apply D1 in HB1; [|rewrite Eu2; apply L2]. inversion HB1; subst e1' s1'.
+      apply D2 in HB2; [exact HB2 | exact I]. }
+    split; [|eapply PVP_PVE_app; eassumption].
+    intros Hf Y Hlk. rewrite <- app_assoc.
+    rewrite (U1 Hf (k2 ++ Y)); [|split; rewrite Eu2; [apply L2 | apply P2; exact Hlk]].
+    cbn [bind].
+    apply U2; [rewrite Eu1 in Hf; eapply frag_suffix; exact Hf | exact Hlk]. }
   destruct toks as [|t l]; [discriminate H|].
   destruct (is_tc TEscape t) eqn:Et.
   2:{ destruct (Hstep _ _ H) as (used & new & Eu & En & C). exists used, new.
       split; [exact Eu|]. split; [exact En|]. intro Hn.
-      destruct (C Hn) as (kept & K & T & L & D). exists kept. repeat (split; [assumption|]).
-      intros g Y r _ HB.
+      destruct (C Hn) as (kept & K & T & L & D & U & P). exists kept.
+      repeat (split; [assumption|]). split.
+      { intros g Y r _ HB.
+        assert (Hlk' : LK (t :: l) (kept ++ Y)) by (rewrite Eu; apply L).
+        destruct (LK_hd _ _ _ _ Hlk' eq_refl) as (l' & EL).
+        destruct g as [|g]; [discriminate HB|]. cbn [read_env_loop] in HB.
+        rewrite EL in HB. rewrite Et in HB. rewrite <- EL in HB.
+        eapply D; eassumption. }
+      split; [|exact P]. intros Hf Y Hlk.
       assert (Hlk' : LK (t :: l) (kept ++ Y)) by (rewrite Eu; apply L).
       destruct (LK_hd _ _ _ _ Hlk' eq_refl) as (l' & EL).
-      destruct g as [|g]; [discriminate HB|]. cbn [read_env_loop] in HB.
-      rewrite EL in HB. rewrite Et in HB. rewrite <- EL in HB.
-      eapply D; eassumption. }
+      cbn [read_env_loop]. rewrite EL. rewrite Et. rewrite <- EL. apply U; assumption. }
   apply bind_ok in H. destruct H as ([[cname cargs] crest] & Hpeek & H).
   destruct (str_eqb cname s_end) eqn:Eend.
   2:{ destruct (Hstep _ _ H) as (used & new & Eu & En & C). exists used, new.
       split; [exact Eu|]. split; [exact En|]. intro Hn.
-      destruct (C Hn) as (kept & K & T & L & D). exists kept. repeat (split; [assumption|]).
-      intros g Y r _ HB.
+      destruct (C Hn) as (kept & K & T & L & D & U & P). exists kept.
+      repeat (split; [assumption|]). split.
+      { intros g Y r _ HB.
+        assert (Hlk' : LK (t :: l) (kept ++ Y)) by (rewrite Eu; apply L).
+        destruct (LK_hd _ _ _ _ Hlk' eq_refl) as (l' & EL).
+        destruct g as [|g]; [discriminate HB|]. cbn [read_env_loop] in HB.
+        rewrite EL in HB. rewrite Et in HB. rewrite <- EL in HB.
+        apply bind_ok in HB. destruct HB as ([[cn' a'] r'] & HP & HB).
+        rewrite (LK_peek _ _ _ _ _ _ _ _ _ _ _ _ _ _ _ Hlk' Et Hpeek HP), Eend in HB.
+        eapply D; eassumption. }
+      split; [|exact P]. intros Hf Y Hlk.
       assert (Hlk' : LK (t :: l) (kept ++ Y)) by (rewrite Eu; apply L).
       destruct (LK_hd _ _ _ _ Hlk' eq_refl) as (l' & EL).
-      destruct g as [|g]; [discriminate HB|]. cbn [read_env_loop] in HB.
-      rewrite EL in HB. rewrite Et in HB. rewrite <- EL in HB.
-      apply bind_ok in HB. destruct HB as ([[cn' a'] r'] & HP & HB).
-      rewrite (LK_peek _ _ _ _ _ _ _ _ _ _ _ _ _ _ _ Hlk' Et Hpeek HP), Eend in HB.
-      eapply D; eassumption. }
+      pose proof (U Hf Y Hlk) as HU. pose proof HU as HU0.
+      apply bind_ok in HU0. destruct HU0 as (x & Hx & _). rewrite EL in Hx.
+      destruct (expr_peek _ _ _ _ _ _ Hx Et) as ([[cn' a'] r'] & HP). rewrite <- EL in HP.
+      cbn [read_env_loop]. rewrite EL. rewrite Et. rewrite <- EL. rewrite HP. cbn [bind].
+      rewrite (LK_peek _ _ _ _ _ _ _ _ _ _ _ _ _ _ _ Hlk' Et Hpeek HP), Eend. exact HU. }
   destruct cargs as [|a0 cargs]; [discriminate H|].
   destruct (negb (str_eqb (arg_string a0) name)) eqn:Ename; [discriminate H|].
   apply negb_false_iff in Ename.
@@ -1457,7 +1957,7 @@ Proof.
   destruct src2 as [|c src3]; [discriminate|].
   apply bind_ok in H. destruct H as ([gr grest] & Harg' & H). inversion H; subst e grest. clear H.
   destruct (finish_end_kept _ _ _ _ _ _ _ _ _ _ _ _ _ _ Hy Et Hpeek Eend Ename Esp Harg')
-    as (nm & n & cl & Hused & Ttx & Tnm & Hc & Hn & Hcl & Hsimple).
+    as (nm & n & cl & Hused & Ttx & Tnm & Hc & Hn & Hcl & Hsimple & Tn).
   assert (Hsplit : exists used, t :: l = used ++ rest /\ Kept used [t; nm; c; n; cl] /\
                      LKU used [t; nm; c; n; cl]).
   { pose proof (is_tc_excl _ TMergedSpacer _ Et ltac:(discriminate)) as Hts.
@@ -1470,6 +1970,49 @@ Proof.
   destruct Hsplit as (used & Eu & K & L).
   exists used, []. split; [exact Eu|]. split; [rewrite app_nil_r; reflexivity|].
   intros _. exists [t; nm; c; n; cl]. split; [exact K|]. split; [exact Ttx|]. split; [exact L|].
+  assert (Hop : is_opener c = true) by (unfold is_opener; rewrite Hc; reflexivity).
+  assert (Hkc : group_kind_of_begin (tcat c) = Some GBrace).
+  { apply is_tc_eq in Hc. rewrite Hc. exact gk_brace. }
+  split.
+  2:{ split.
+      2:{ apply (finish_PVE t nm c n cl used Et Tnm Hop).
+          destruct Hused as [E|(sp & Hsp & E)]; rewrite Eu in E; apply app_inv_tail in E;
+            [left; exact E | right; exists sp; auto]. }
+      intros Hf Y Hlk.
+      (* what follows `\end{name}` is not a group: the peek stops right there *)
+      assert (Has : exists r', l = nm :: r' /\ after_spacer r' = c :: n :: cl :: rest /\
+                      exists pre, (pre = [] \/ exists sp, is_tc TMergedSpacer sp = true /\ pre = [sp])
+                                  /\ r' = pre ++ c :: n :: cl :: rest).
+      { destruct Hused as [E|(sp & Hsp & E)]; inversion E; subst l; eexists;
+          (split; [reflexivity|]).
+        - split; [rewrite after_spacer_cons, (opener_not_spacer c Hop); reflexivity|].
+          exists []. split; [left; reflexivity | reflexivity].
+        - split; [cbn [app]; rewrite after_spacer_cons, Hsp; reflexivity|].
+          exists [sp]. split; [right; exists sp; auto | reflexivity]. }
+      destruct Has as (r' & El & Has & pre & Hpre & Er').
+      assert (HnY : noarg Y = true).
+      { rewrite <- (noarg_LKs _ _ (LK_LKs _ _ Hlk)).
+        rewrite El in Hf. destruct (frag_pvk _ Hf) as (kd & Hk).
+        assert (Hstop : str_eqb (ttext nm) s_end || str_eqb (ttext nm) s_item = true).
+        { rewrite Tnm. reflexivity. }
+        destruct (pvk_stop _ _ _ _ Et Hstop Hk)
+          as [(_ & Hna)|[(_ & _ & c' & n' & cl' & Z & Ha & _ & HZ)|(_ & E & _)]].
+        - exfalso. unfold noarg, hdc in Hna. rewrite Has in Hna. cbn [hd_error option_map] in Hna.
+          apply is_tc_eq in Hc. rewrite Hc in Hna. discriminate Hna.
+        - rewrite Has in Ha. inversion Ha; subst. exact HZ.
+        - rewrite Tnm in E. discriminate E. }
+      rewrite El, Er' in Hpeek.
+      destruct (peek_fuel _ _ _ _ _ _ _ _ _ _ Hpre Tnm Hc Hn Hpeek) as (f' & ->).
+      cbn [read_env_loop app]. rewrite Et.
+      rewrite (peek_end_fwd f' m t nm c n cl Y Tnm Hc Hn Hcl HnY). cbn [bind].
+      rewrite Tnm. replace (str_eqb s_end s_end) with true by reflexivity.
+      cbn [arg_string estr_list map concat estr]. rewrite app_nil_r.
+      assert (En : str_eqb (ttext n) name = true) by (apply str_eqb_eq; exact Tn).
+      rewrite En. cbn [negb].
+      change (skipn 2 (t :: nm :: c :: n :: cl :: Y)) with (c :: n :: cl :: Y).
+      rewrite (opener_read_spacer c _ Hop).
+      change (6 + f')%nat with (S (S (S (3 + f')))).
+      rewrite (simple_group_fwd _ c m n cl Y Hkc Hn Hcl). reflexivity. }
   intros g Y r _ HB. destruct g as [|g]; [discriminate HB|].
   cbn [read_env_loop app] in HB. rewrite Et in HB.
   apply bind_ok in HB. destruct HB as ([[cn' ca'] r'] & HP & HB).
@@ -1478,11 +2021,8 @@ Proof.
   destruct (match ca' with [] => true | a0 :: _ => negb (str_eqb (arg_string a0) name) end);
     [discriminate HB|].
   change (skipn 2 (t :: nm :: c :: n :: cl :: Y)) with (c :: n :: cl :: Y) in HB.
-  assert (Hop : is_opener c = true) by (unfold is_opener; rewrite Hc; reflexivity).
   rewrite (opener_read_spacer c _ Hop) in HB.
   apply bind_ok in HB. destruct HB as ([g' s'] & HB1 & HB).
-  assert (Hkc : group_kind_of_begin (tcat c) = Some GBrace).
-  { apply is_tc_eq in Hc. rewrite Hc. exact gk_brace. }
   destruct (simple_group_read _ _ _ _ _ _ _ _ _ Hkc Hn Hcl HB1) as [_ ->].
   inversion HB. reflexivity.
 Qed.
@@ -1540,8 +2080,7 @@ Lemma skip_env_kept ename args' pos src1 e rest :
   read_skip_env ename args' pos src1 = Ok (e, rest) ->
   exists used body p, src1 = used ++ rest /\ e = ENamed ename args' [ERaw body p] pos /\
     body ++ env_end ename = texts used /\
-    forall Y r, (rest = [] -> Y = []) ->
-      read_skip_env ename args' pos (used ++ Y) = Ok r -> r = (e, Y).
+    forall Y, (rest = [] -> Y = []) -> read_skip_env ename args' pos (used ++ Y) = Ok (e, Y).
 Proof.
   intros Hy Hm H. unfold read_skip_env in H.
   destruct (skip_scan (env_end ename) [] src1) as [body r] eqn:Esc.
@@ -1554,26 +2093,136 @@ Proof.
   exists (pre ++ firstn 5 r), body, (tpos t0).
   split; [rewrite <- app_assoc, firstn_skipn; exact Epre|]. split; [reflexivity|].
   split; [rewrite Ebody, <- H5, <- texts_app; reflexivity|].
-  intros Y res HY HB. unfold read_skip_env in HB. fold T in HB.
+  intros Y HY. unfold read_skip_env. fold T.
   assert (Hr : r = firstn 5 r ++ skipn 5 r) by (symmetry; apply firstn_skipn).
   assert (Hne5 : firstn 5 r ++ Y <> []) by (unfold r; discriminate).
   assert (Hsc : skip_scan T [] (pre ++ firstn 5 r ++ Y) = (body, firstn 5 r ++ Y)).
   { apply (skip_scan_stable T r); [| exact Est | unfold r; discriminate | exact Hne5 |].
     - intro a. rewrite Hr at 1. apply sw_stable. exact H5.
     - rewrite <- Epre. exact Esc0. }
-  rewrite <- app_assoc, Hsc in HB.
+  rewrite <- app_assoc, Hsc.
   assert (Hhd : exists l', pre ++ firstn 5 r ++ Y = t0 :: l').
   { destruct pre as [|p0 pre']; cbn [app] in Epre |- *.
     - unfold r in Epre |- *. inversion Epre. cbn [firstn app]. eauto.
     - inversion Epre. eauto. }
-  destruct Hhd as (l' & EL). rewrite EL in HB.
+  destruct Hhd as (l' & EL). rewrite EL.
   destruct (firstn 5 r ++ Y) as [|x0 xs] eqn:E5; [congruence|].
-  rewrite <- E5 in HB.
+  rewrite <- E5.
   assert (Est' : sw T (firstn 5 r ++ Y) = true).
   { rewrite <- Est. fold (sw T r). rewrite Hr at 2.
     apply (sw_stable T (firstn 5 r) [] Y (skipn 5 r) H5). }
-  unfold sw in Est'. rewrite Est' in HB. rewrite (skipn_firstn_app 5 r Y HY) in HB.
-  inversion HB. reflexivity.
+  unfold sw in Est'. rewrite Est'. rewrite (skipn_firstn_app 5 r Y HY). reflexivity.
+Qed.
+
+(* ------------------------------ the peek view across a command piece *)
+
+Lemma endk_plain r : endk r = Some KPlain <-> noarg r = true.
+Proof.
+  unfold endk, noarg, hdc. destruct (after_spacer r) as [|c l']; [split; reflexivity|].
+  cbn [hd_error option_map]. unfold is_opener, is_tc.
+  destruct (tcat c); cbn [tc_beq orb]; split; intro H; try reflexivity; try discriminate H.
+  all: destruct l' as [|n [|cl Z]]; try discriminate H.
+  all: match type of H with context [if ?b then _ else _] => destruct b end; discriminate H.
+Qed.
+
+Lemma Kept_simple pre c n cl kc W :
+  (pre = [] \/ exists sp, is_tc TMergedSpacer sp = true /\ pre = [sp]) ->
+  is_tc TMergedSpacer c = false -> is_tc TMergedSpacer n = false ->
+  Kept (pre ++ [c; n; cl]) kc -> after_spacer (kc ++ W) = c :: n :: cl :: W.
+Proof.
+  intros Hpre Hcs Hns K.
+  assert (K3 : forall k, Kept [c; n; cl] k -> k = [c; n; cl]).
+  { intros k Hk. inversion Hk as [|? ? k1 Hk1|]; subst; [|congruence].
+    inversion Hk1 as [|? ? k2 Hk2|]; subst; [|congruence].
+    inversion Hk2 as [|? ? k3 Hk3|]; subst. inversion Hk3. reflexivity. }
+  destruct Hpre as [->|(sp & Hsp & ->)]; cbn [app] in K.
+  - rewrite (K3 _ K). cbn [app]. rewrite after_spacer_cons, Hcs. reflexivity.
+  - inversion K as [|? ? k1 Hk1|? ? ? ? _ _ Hk1]; subst.
+    + rewrite (K3 _ Hk1). cbn [app]. rewrite after_spacer_cons, Hsp. reflexivity.
+    + rewrite (K3 _ Hk1). cbn [app]. rewrite after_spacer_cons, Hcs. reflexivity.
+Qed.
+
+(* the tokens a command consumed when its peek view is one simple group *)
+Lemma used_exact usedc src1 c' n' cl' :
+  after_spacer (usedc ++ src1) = c' :: n' :: cl' :: src1 ->
+  exists pre, (pre = [] \/ exists sp, is_tc TMergedSpacer sp = true /\ pre = [sp]) /\
+              usedc = pre ++ [c'; n'; cl'].
+Proof.
+  intro Ha. destruct (after_spacer_inv _ _ _ Ha) as [E|(sp & Hsp & E)].
+  - exists []. split; [left; reflexivity|].
+    change (c' :: n' :: cl' :: src1) with ([c'; n'; cl'] ++ src1) in E.
+    apply app_inv_tail in E. exact E.
+  - exists [sp]. split; [right; exists sp; auto|].
+    change (sp :: c' :: n' :: cl' :: src1) with ([sp; c'; n'; cl'] ++ src1) in E.
+    apply app_inv_tail in E. exact E.
+Qed.
+
+Lemma cmd_PVP f m c nt usedc kc u2 k2 src1 rest name args :
+  is_tc TEscape c = true -> src1 = u2 ++ rest ->
+  read_command f (-1) (-1) 0 true m (nt :: usedc ++ src1) = Ok ((name, args), src1) ->
+  Kept usedc kc -> LKsP usedc kc -> LKP u2 k2 ->
+  PVP (c :: nt :: usedc ++ u2) (c :: nt :: kc ++ k2) rest.
+Proof.
+  intros Ec Esrc Hcmd Kc LS L2 Y Hlk _ k Hk.
+  cbn [app] in *. rewrite <- !app_assoc in *.
+  assert (HL : LKs (usedc ++ u2 ++ rest) (kc ++ k2 ++ Y)).
+  { apply LS. apply LK_LKs. apply L2. exact Hlk. }
+  destruct (str_eqb (ttext nt) s_end || str_eqb (ttext nt) s_item) eqn:Hn.
+  2:{ apply orb_false_iff in Hn. destruct Hn as [H1 H2]. cbn [pvk] in *.
+      rewrite Ec, H2, H1 in *. exact Hk. }
+  assert (HnY : forall Z, src1 = Z -> noarg Z = true -> noarg (k2 ++ Y) = true).
+  { intros Z <- HZ. rewrite <- HZ. rewrite Esrc. symmetry. apply noarg_LKs, LK_LKs, L2.
+    exact Hlk. }
+  rewrite <- (peek_shift f (-1) (-1) m c (nt :: usedc ++ src1)) in Hcmd.
+  apply (command_mono f (6 + f)) in Hcmd; [|lia].
+  destruct (pvk_stop _ _ _ _ Ec Hn Hk)
+    as [(-> & Hna)|[(-> & Tnm & c' & n' & cl' & Z & Ha & Hs & HZ)
+                   |(-> & Tnm & c' & n' & cl' & Z & Ha & Hs & HZ)]].
+  - (* nothing follows the name *)
+    rewrite (noarg_LKs _ _ HL) in Hna. cbn [pvk]. rewrite Ec.
+    destruct (str_eqb (ttext nt) s_item).
+    + unfold itemk. rewrite Hna. reflexivity.
+    + rewrite orb_false_r in Hn. rewrite Hn. apply endk_plain. exact Hna.
+  - (* `\end` + one simple group, read as an ordinary command *)
+    rewrite <- Esrc in Ha.
+    assert (EZ : src1 = Z).
+    { pose proof (peek_group_fwd f m c nt (usedc ++ src1) c' n' cl' Z Tnm Ha Hs HZ) as Hfw.
+      rewrite Hcmd in Hfw. inversion Hfw. reflexivity. }
+    subst Z.
+    pose proof Hs as Hs0. unfold simple_name_group in Hs0.
+    apply andb_true_iff in Hs0. destruct Hs0 as [Hs0 Hcl].
+    apply andb_true_iff in Hs0. destruct Hs0 as [Hs0 _].
+    apply andb_true_iff in Hs0. destruct Hs0 as [Hc' Hn'].
+    destruct (used_exact _ _ _ _ _ Ha) as (pre & Hpre & ->).
+    assert (Hcs : is_tc TMergedSpacer c' = false) by (eapply is_tc_excl; [exact Hc' | discriminate]).
+    assert (Hns : is_tc TMergedSpacer n' = false) by (eapply is_tc_excl; [exact Hn' | discriminate]).
+    pose proof (Kept_simple pre c' n' cl' kc (k2 ++ Y) Hpre Hcs Hns Kc) as HB.
+    cbn [pvk]. rewrite Ec, Tnm.
+    replace (str_eqb s_end s_item) with false by reflexivity.
+    replace (str_eqb s_end s_end) with true by reflexivity.
+    unfold endk. rewrite HB.
+    assert (Hop : is_opener c' = true) by (unfold is_opener; rewrite Hc'; reflexivity).
+    rewrite Hop. unfold simple_name_group in Hs |- *.
+    rewrite (HnY src1 eq_refl HZ).
+    apply andb_true_iff in Hs. destruct Hs as [Hs1 Hs2]. rewrite Hs1, Hs2. reflexivity.
+  - (* `\item` + one simple label *)
+    rewrite <- Esrc in Ha.
+    assert (EZ : src1 = Z).
+    { pose proof (peek_bracket_fwd f m c nt (usedc ++ src1) c' n' cl' Z Tnm Ha Hs HZ) as Hfw.
+      rewrite Hcmd in Hfw. inversion Hfw. reflexivity. }
+    subst Z.
+    destruct (simple_bracket_parts _ _ _ _ Hs) as (Hc' & Hn' & Hcl').
+    destruct (used_exact _ _ _ _ _ Ha) as (pre & Hpre & ->).
+    assert (Hcs : is_tc TMergedSpacer c' = false) by (eapply is_tc_excl; [exact Hc' | discriminate]).
+    assert (Hns : is_tc TMergedSpacer n' = false) by (eapply is_tc_excl; [exact Hn' | discriminate]).
+    pose proof (Kept_simple pre c' n' cl' kc (k2 ++ Y) Hpre Hcs Hns Kc) as HB.
+    cbn [pvk]. rewrite Ec, Tnm.
+    replace (str_eqb s_item s_item) with true by reflexivity.
+    unfold itemk. rewrite HB.
+    assert (Hnb : noarg (kc ++ k2 ++ Y) = false).
+    { unfold noarg, hdc. rewrite HB. cbn [hd_error option_map].
+      apply is_tc_eq in Hc'. rewrite Hc'. reflexivity. }
+    rewrite Hnb. unfold simple_bracket in Hs |- *. rewrite (HnY src1 eq_refl HZ), Hs. reflexivity.
 Qed.
 
 Lemma fp_expr_S f : fp_all f -> fp_expr (S f).
@@ -1586,29 +2235,39 @@ Proof.
   { (* math region *)
     apply Cm in H; [|exact Hys]. destruct H as (used & new & Eu & -> & C).
     exists (c :: used). split; [rewrite Eu; reflexivity|].
-    cbn [nobare app]. intro Hn. destruct (C Hn) as (kept & K & T & L & D).
+    cbn [nobare app]. intro Hn. destruct (C Hn) as (kept & K & T & L & D & U & P).
     exists (c :: kept). split; [apply Kept_keep; exact K|]. split.
     { cbn [estr]. change (concat (map estr new)) with (estr_list new). rewrite T, texts_cons.
       f_equal. symmetry. apply Wc. apply math_kind_begin_tok. exact Ek. }
     destruct (math_begin_cats _ _ Ek) as [S1 S2].
-    split; [apply LKU_LKP, LKU_plain; assumption|].
-    intros g Y r _ HB. destruct g as [|g]; [discriminate HB|].
-    cbn [read_expr app] in HB. rewrite Ek in HB. apply D in HB; [exact HB | exact I]. }
+    split; [apply LKU_LKP, LKU_plain; assumption|]. split.
+    { intros g Y r _ HB. destruct g as [|g]; [discriminate HB|].
+      cbn [read_expr app] in HB. rewrite Ek in HB. apply D in HB; [exact HB | exact I]. }
+    split; [|apply PVE_PVP, PVU_PVE, PVU_plain; exact S2].
+    intros Hf Y _. cbn [read_expr app]. rewrite Ek.
+    apply U; [eapply frag_tail; exact Hf | exact I]. }
   destruct (is_tc TEscape c) eqn:Ec.
   2:{ destruct (is_tc TGroupBegin c) eqn:Eg.
       - apply Cg in H; [|exact Wc | exact Hys]. destruct H as (used & Eu & _ & C).
         exists (c :: used). split; [rewrite Eu; reflexivity|].
-        intro Hn. destruct (C Hn) as (kept & K & T & D).
+        intro Hn. destruct (C Hn) as (kept & K & T & D & U).
         exists (c :: kept). split; [apply Kept_keep; exact K|]. split; [rewrite T; reflexivity|].
         split; [apply LKU_LKP, LKU_plain;
                 [eapply is_tc_excl; [exact Eg | discriminate] | exact Ec]|].
-        intros g Y r _ HB. destruct g as [|g]; [discriminate HB|].
-        cbn [read_expr app] in HB. rewrite Ek, Ec, Eg in HB. apply D in HB; [exact HB | exact I].
+        split.
+        { intros g Y r _ HB. destruct g as [|g]; [discriminate HB|].
+          cbn [read_expr app] in HB. rewrite Ek, Ec, Eg in HB.
+          apply D in HB; [exact HB | exact I]. }
+        split; [|apply PVE_PVP, PVU_PVE, PVU_plain; exact Ec].
+        intros Hf Y _. cbn [read_expr app]. rewrite Ek, Ec, Eg.
+        apply U; [eapply frag_tail; exact Hf | exact I].
       - inversion H; subst. exists [c]. split; [reflexivity|]. intros _.
         exists [c]. split; [apply Kept_refl|]. split; [rewrite texts_one; reflexivity|].
-        split; [apply LKP_same|].
-        intros g Y r _ HB. destruct g as [|g]; [discriminate HB|].
-        cbn [read_expr app] in HB. rewrite Ek, Ec, Eg in HB. inversion HB. reflexivity. }
+        split; [apply LKP_same|]. split.
+        { intros g Y r _ HB. destruct g as [|g]; [discriminate HB|].
+          cbn [read_expr app] in HB. rewrite Ek, Ec, Eg in HB. inversion HB. reflexivity. }
+        split; [|apply PVP_one; exact Ec].
+        intros _ Y _. cbn [read_expr app]. rewrite Ek, Ec, Eg. reflexivity. }
   (* a command *)
   assert (Tc : ttext c = [backslash]) by (apply Wc; apply is_tc_eq; exact Ec).
   pose proof (is_tc_excl _ TMergedSpacer _ Ec ltac:(discriminate)) as Hcs.
@@ -1619,13 +2278,17 @@ Proof.
   { (* lone escape at the end of the input *)
     simpl in H. inversion H; subst. exists [c]. split; [reflexivity|].
     intros _. exists [c]. split; [apply Kept_refl|].
-    split; [rewrite texts_one, Tc; reflexivity|]. split; [apply LKP_same|].
-    intros g Y r Hlk HB. apply LK_nil_inv in Hlk. subst Y.
-    destruct g as [|g]; [discriminate HB|].
-    cbn [read_expr app] in HB. rewrite Ek, Ec in HB.
-    apply bind_ok in HB. destruct HB as ([[n' a'] s'] & HP & HB).
-    destruct g as [|g]; [discriminate HP|]. cbn in HP. inversion HP; subst n' a' s'.
-    simpl in HB. inversion HB. reflexivity. }
+    split; [rewrite texts_one, Tc; reflexivity|]. split; [apply LKP_same|]. split.
+    { intros g Y r Hlk HB. apply LK_nil_inv in Hlk. subst Y.
+      destruct g as [|g]; [discriminate HB|].
+      cbn [read_expr app] in HB. rewrite Ek, Ec in HB.
+      apply bind_ok in HB. destruct HB as ([[n' a'] s'] & HP & HB).
+      destruct g as [|g]; [discriminate HP|]. cbn in HP. inversion HP; subst n' a' s'.
+      simpl in HB. inversion HB. reflexivity. }
+    split.
+    2:{ intros Y Hlk _. apply LK_nil_inv in Hlk. subst Y. apply PV_refl. }
+    intros _ Y (Hlk & _). apply LK_nil_inv in Hlk. subst Y.
+    cbn [read_expr app]. rewrite Ek, Ec. rewrite Hcmd2. reflexivity. }
   subst src.
   assert (Hstrip : strip name = name).
   { pose proof (h_names _ _ Hy) as Hn. cbn [clean_names] in Hn. rewrite Ec in Hn.
@@ -1645,6 +2308,11 @@ Proof.
   { intros kc Dc g k2 Y r Hlk F HB.
     apply bind_ok in HB. destruct HB as (x & HB1 & HB).
     specialize (Dc g (k2 ++ Y) x Hlk HB1). subst x. exact HB. }
+  assert (Fcmd : forall kc,
+            succ (fun l => read_command f (-1) (-1) 0 true m l) LK (nt :: kc) src1 (name, args) ->
+            forall k2 Y, LK src1 (k2 ++ Y) ->
+              read_command f (-1) (-1) 0 true m (nt :: kc ++ k2 ++ Y) = Ok (name, args, k2 ++ Y)).
+  { intros kc Uc k2 Y Hlk. exact (Uc (k2 ++ Y) Hlk). }
   destruct (str_eqb name s_item) eqn:Eitem.
   { (* \item *)
     destruct (mode_is_math m) eqn:Emm; [discriminate|].
@@ -1654,36 +2322,49 @@ Proof.
     split; [rewrite Eu2; simpl; rewrite <- app_assoc; reflexivity|].
     rewrite Hstrip, estr_cmd, nobare_cmd. cbn [app]. intro Hn.
     apply andb_true_iff in Hn. destruct Hn as [Hn Hn3].
-    destruct (Cargs Hn) as (kc & Kc & Tk & Dc). destruct (C2 Hn3) as (k2 & K2 & T2 & L2 & D2).
+    destruct (Cargs Hn) as (kc & Kc & Tk & Dc & Uc & LS).
+    destruct (C2 Hn3) as (k2 & K2 & T2 & L2 & D2 & U2 & P2).
     exists (c :: nt :: kc ++ k2).
     split; [apply Kept_keep, Kept_keep, Kept_app; assumption|]. split.
     { rewrite !texts_cons, texts_app, Tc, Tk, T2. reflexivity. }
-    split; [apply LKU_LKP, LKU_two; exact Hcs|].
-    intros g Y r Hlk HB. destruct g as [|g]; [discriminate HB|].
-    cbn [read_expr app] in HB. rewrite Ek, Ec in HB.
-    rewrite <- app_assoc in HB.
-    apply (Bcmd kc Dc g k2 Y r) in HB; [|rewrite Eu2; apply L2; exact Hlk].
-    cbv beta iota in HB. rewrite Eitem, Emm in HB.
-    apply bind_ok in HB. destruct HB as ([ct' s'] & HB1 & HB).
-    apply D2 in HB1; [|exact Hlk]. inversion HB1; subst ct' s'.
-    rewrite Hstrip in HB. inversion HB. reflexivity. }
+    split; [apply LKU_LKP, LKU_two; exact Hcs|]. split.
+    { intros g Y r Hlk HB. destruct g as [|g]; [discriminate HB|].
+      cbn [read_expr app] in HB. rewrite Ek, Ec in HB.
+      rewrite <- app_assoc in HB.
+      apply (Bcmd kc Dc g k2 Y r) in HB; [|rewrite Eu2; apply L2; exact Hlk].
+      cbv beta iota in HB. rewrite Eitem, Emm in HB.
+      apply bind_ok in HB. destruct HB as ([ct' s'] & HB1 & HB).
+      apply D2 in HB1; [|exact Hlk]. inversion HB1; subst ct' s'.
+      rewrite Hstrip in HB. inversion HB. reflexivity. }
+    split; [|eapply cmd_PVP; eassumption].
+    intros Hf Y (Hlk & Hpv). cbn [read_expr app]. rewrite Ek, Ec. rewrite <- app_assoc.
+    rewrite (Fcmd kc (Uc (frag_tail _ _ Hf)) k2 Y); [|rewrite Eu2; apply L2; exact Hlk].
+    cbn [bind]. rewrite Eitem, Emm.
+    rewrite (U2 (frag_suffix (c :: nt :: usedc) src1 Hf) Y); [|split; assumption].
+    cbn [bind]. rewrite Hstrip. reflexivity. }
   destruct (str_eqb name s_begin && negb (mode_is_special m)) eqn:Ebegin.
   2:{ (* an ordinary command *)
       inversion H; subst. exists (c :: nt :: usedc ++ []).
       split; [rewrite app_nil_r; reflexivity|].
       rewrite Hstrip, estr_cmd, nobare_cmd. intro Hn. rewrite andb_true_r in Hn.
-      destruct (Cargs Hn) as (kc & Kc & Tk & Dc).
+      destruct (Cargs Hn) as (kc & Kc & Tk & Dc & Uc & LS).
       exists (c :: nt :: kc ++ []).
       split; [apply Kept_keep, Kept_keep, Kept_app; [exact Kc | constructor]|]. split.
       { rewrite !texts_cons, app_nil_r, Tc, Tk. cbn [estr_list map concat]. rewrite app_nil_r.
         reflexivity. }
-      split; [apply LKU_LKP, LKU_two; exact Hcs|].
-      intros g Y r Hlk HB. destruct g as [|g]; [discriminate HB|].
-      cbn [read_expr app] in HB. rewrite Ek, Ec in HB.
-      rewrite <- app_assoc in HB.
-      apply (Bcmd kc Dc g [] Y r) in HB; [|exact Hlk].
-      cbv beta iota in HB. rewrite Eitem, Ebegin in HB. cbn [app] in HB.
-      rewrite Hstrip in HB. inversion HB. reflexivity. }
+      split; [apply LKU_LKP, LKU_two; exact Hcs|]. split.
+      { intros g Y r Hlk HB. destruct g as [|g]; [discriminate HB|].
+        cbn [read_expr app] in HB. rewrite Ek, Ec in HB.
+        rewrite <- app_assoc in HB.
+        apply (Bcmd kc Dc g [] Y r) in HB; [|exact Hlk].
+        cbv beta iota in HB. rewrite Eitem, Ebegin in HB. cbn [app] in HB.
+        rewrite Hstrip in HB. inversion HB. reflexivity. }
+      split.
+      2:{ eapply (cmd_PVP f m c nt usedc kc [] [] rest rest); try eassumption;
+            [reflexivity | apply LKP_nil]. }
+      intros Hf Y (Hlk & _). cbn [read_expr app]. rewrite Ek, Ec. rewrite <- app_assoc.
+      rewrite (Fcmd kc (Uc (frag_tail _ _ Hf)) [] Y Hlk). cbn [bind].
+      rewrite Eitem, Ebegin. cbn [app]. rewrite Hstrip. reflexivity. }
   (* \begin *)
   pose proof Ebegin as Ebegin0.
   apply andb_true_iff in Ebegin. destruct Ebegin as [Ebegin _].
@@ -1709,35 +2390,50 @@ Proof.
     split; [rewrite Eu2; simpl; rewrite <- app_assoc; reflexivity|].
     rewrite estr_named, nobare_named, estr_list_one. cbn [estr forallb nobare].
     rewrite andb_true_r. intro Hn.
-    destruct (Cargs (Hokall Hn)) as (kc & Kc & Tk & Dc).
+    destruct (Cargs (Hokall Hn)) as (kc & Kc & Tk & Dc & Uc & LS).
     exists (c :: nt :: kc ++ u2).
     split; [apply Kept_keep, Kept_keep, Kept_app; [exact Kc | apply Kept_refl]|]. split.
     { rewrite app_assoc, (Tbegin kc Tk), T2.
       change (c :: nt :: kc ++ u2) with ((c :: nt :: kc) ++ u2). rewrite texts_app. reflexivity. }
     split; [apply LKU_LKP, LKU_two; exact Hcs|].
-    intros g Y r Hlk HB. destruct g as [|g]; [discriminate HB|].
-    cbn [read_expr app] in HB. rewrite Ek, Ec in HB.
-    rewrite <- app_assoc in HB.
-    apply (Bcmd kc Dc g u2 Y r) in HB; [|rewrite Eu2; apply LKP_same; exact Hlk].
-    cbv beta iota in HB. rewrite Eitem, Ebegin0 in HB. fold ename in HB. rewrite Eskip in HB.
-    apply D2 in HB; [exact HB|]. intros ->. apply LK_nil_inv in Hlk. exact Hlk. }
+    assert (HY : forall Y, LK rest Y -> rest = [] -> Y = []).
+    { intros Y Hlk ->. apply LK_nil_inv in Hlk. exact Hlk. }
+    split.
+    { intros g Y r Hlk HB. destruct g as [|g]; [discriminate HB|].
+      cbn [read_expr app] in HB. rewrite Ek, Ec in HB.
+      rewrite <- app_assoc in HB.
+      apply (Bcmd kc Dc g u2 Y r) in HB; [|rewrite Eu2; apply LKP_same; exact Hlk].
+      cbv beta iota in HB. rewrite Eitem, Ebegin0 in HB. fold ename in HB. rewrite Eskip in HB.
+      rewrite (D2 Y (HY Y Hlk)) in HB. inversion HB. reflexivity. }
+    split; [|eapply cmd_PVP; try eassumption; apply LKP_same].
+    intros Hf Y (Hlk & _). cbn [read_expr app]. rewrite Ek, Ec. rewrite <- app_assoc.
+    rewrite (Fcmd kc (Uc (frag_tail _ _ Hf)) u2 Y); [|rewrite Eu2; apply LKP_same; exact Hlk].
+    cbn [bind]. rewrite Eitem, Ebegin0. fold ename. rewrite Eskip. apply D2. exact (HY Y Hlk). }
   apply Cv in H; [|exact Hsk | exact Hys1]. destruct H as (u2 & new & Eu2 & -> & C2).
   exists (c :: nt :: usedc ++ u2).
   split; [rewrite Eu2; simpl; rewrite <- app_assoc; reflexivity|].
   rewrite estr_named, nobare_named. cbn [app]. intro Hn.
   apply andb_true_iff in Hn. destruct Hn as [Hn Hn3].
-  destruct (Cargs (Hokall Hn)) as (kc & Kc & Tk & Dc). destruct (C2 Hn3) as (k2 & K2 & T2 & L2 & D2).
+  destruct (Cargs (Hokall Hn)) as (kc & Kc & Tk & Dc & Uc & LS).
+  destruct (C2 Hn3) as (k2 & K2 & T2 & L2 & D2 & U2 & P2).
   exists (c :: nt :: kc ++ k2).
   split; [apply Kept_keep, Kept_keep, Kept_app; assumption|]. split.
   { rewrite app_assoc, (Tbegin kc Tk), T2.
     change (c :: nt :: kc ++ k2) with ((c :: nt :: kc) ++ k2). rewrite texts_app. reflexivity. }
-  split; [apply LKU_LKP, LKU_two; exact Hcs|].
-  intros g Y r Hlk HB. destruct g as [|g]; [discriminate HB|].
-  cbn [read_expr app] in HB. rewrite Ek, Ec in HB.
-  rewrite <- app_assoc in HB.
-  apply (Bcmd kc Dc g k2 Y r) in HB; [|rewrite Eu2; apply L2].
-  cbv beta iota in HB. rewrite Eitem, Ebegin0 in HB. fold ename in HB. rewrite Eskip in HB.
-  apply D2 in HB; [exact HB | exact I].
+  split; [apply LKU_LKP, LKU_two; exact Hcs|]. split.
+  { intros g Y r Hlk HB. destruct g as [|g]; [discriminate HB|].
+    cbn [read_expr app] in HB. rewrite Ek, Ec in HB.
+    rewrite <- app_assoc in HB.
+    apply (Bcmd kc Dc g k2 Y r) in HB; [|rewrite Eu2; apply L2].
+    cbv beta iota in HB. rewrite Eitem, Ebegin0 in HB. fold ename in HB. rewrite Eskip in HB.
+    apply D2 in HB; [exact HB | exact I]. }
+  split; [|eapply cmd_PVP; try eassumption; apply LKU_LKP; exact L2].
+  intros Hf Y (Hlk & _). cbn [read_expr app]. rewrite Ek, Ec. rewrite <- app_assoc.
+  rewrite (Fcmd kc (Uc (frag_tail _ _ Hf)) k2 Y); [|rewrite Eu2; apply L2].
+  cbn [bind]. rewrite Eitem, Ebegin0. fold ename. rewrite Eskip.
+  apply U2; [|exact Hlk].
+  apply frag_tail in Hf. change (nt :: usedc ++ src1) with ((nt :: usedc) ++ src1) in Hf.
+  eapply frag_suffix; exact Hf.
 Qed.
 
 Lemma fp_all_holds : forall f, fp_all f.
@@ -1763,13 +2459,15 @@ Lemma read_tex_loop_fp fuel efuel skip : forall acc toks body,
   sub_skip SK skip -> Hyp toks ->
   read_tex_loop fuel efuel skip true acc toks = Ok body ->
   exists new, body = acc ++ new /\ (forallb nobare new = true ->
-    exists kept, Kept toks kept /\ estr_list new = texts kept /\ LK toks kept /\
-      forall fuel' efuel' r, read_tex_loop fuel' efuel' skip true acc kept = Ok r -> r = body).
+    exists kept, Kept toks kept /\ estr_list new = texts kept /\ LK toks kept /\ PV toks kept /\
+      (forall fuel' efuel' r, read_tex_loop fuel' efuel' skip true acc kept = Ok r -> r = body) /\
+      (frag toks = true -> read_tex_loop fuel efuel skip true acc kept = Ok body)).
 Proof.
   induction fuel as [|fu IH]; intros acc toks body Hsk Hy H; [discriminate|].
   cbn [read_tex_loop] in H. destruct toks as [|t ts].
   - inversion H; subst. exists []. split; [symmetry; apply app_nil_r|]. intros _.
     exists []. split; [constructor|]. split; [reflexivity|]. split; [apply LK_nil|].
+    split; [apply PV_refl|]. split; [|reflexivity].
     intros fuel' efuel' r HB. destruct fuel' as [|fu']; [discriminate HB|].
     cbn in HB. inversion HB. reflexivity.
   - apply bind_ok in H. destruct H as ([e rest] & He & H).
@@ -1779,38 +2477,68 @@ Proof.
     destruct H as (new & -> & C2). exists (e :: new).
     split; [rewrite <- app_assoc; reflexivity|].
     intro Hn. simpl in Hn. apply andb_true_iff in Hn. destruct Hn as [Hn1 Hn2].
-    destruct (C1 Hn1) as (k1 & K1 & T1 & L1 & D1). destruct (C2 Hn2) as (k2 & K2 & T2 & L2 & D2).
+    destruct (C1 Hn1) as (k1 & K1 & T1 & L1 & D1 & U1 & P1).
+    destruct (C2 Hn2) as (k2 & K2 & T2 & L2 & Pv2 & D2 & U2).
     exists (k1 ++ k2). split; [rewrite Eu1; apply Kept_app; assumption|]. split.
     { change (estr_list (e :: new)) with (estr e ++ estr_list new).
       rewrite T1, T2, texts_app. reflexivity. }
     assert (Hlk : LK (t :: ts) (k1 ++ k2)) by (rewrite Eu1; apply L1; exact L2).
-    split; [exact Hlk|].
-    intros fuel' efuel' r HB. destruct fuel' as [|fu']; [discriminate HB|].
-    destruct (LK_hd _ _ _ _ Hlk eq_refl) as (l' & EL).
-    cbn [read_tex_loop] in HB. rewrite EL in HB. rewrite <- EL in HB.
-    apply bind_ok in HB. destruct HB as ([e' s'] & HB1 & HB2).
-    apply D1 in HB1; [|exact L2]. inversion HB1; subst e' s'.
-    eapply D2. exact HB2.
+    split; [exact Hlk|]. split; [rewrite Eu1; apply P1; assumption|].
+    destruct (LK_hd _ _ _ _ Hlk eq_refl) as (l' & EL). split.
+    { intros fuel' efuel' r HB. destruct fuel' as [|fu']; [discriminate HB|].
+      cbn [read_tex_loop] in HB. rewrite EL in HB. rewrite <- EL in HB.
+      apply bind_ok in HB. destruct HB as ([e' s'] & HB1 & HB2).
+      apply D1 in HB1; [|exact L2]. inversion HB1; subst e' s'.
+      eapply D2. exact HB2. }
+    intro Hf. cbn [read_tex_loop]. rewrite EL. rewrite <- EL.
+    rewrite (U1 Hf k2 (conj L2 Pv2)). cbn [bind]. apply U2.
+    rewrite Eu1 in Hf. eapply frag_suffix. exact Hf.
 Qed.
 
 End FP.
 
 (* Stage 1, top level: the tokens the run kept serialise to the output, and
    every successful parse of the kept tokens returns the same tree *)
+Lemma tex_loop_mono skip : forall fuel fuel' efuel efuel' acc toks,
+  (fuel <= fuel')%nat -> (efuel <= efuel')%nat ->
+  fref (read_tex_loop fuel efuel skip true acc toks) (read_tex_loop fuel' efuel' skip true acc toks).
+Proof.
+  induction fuel as [|fu IH]; intros fuel' efuel efuel' acc toks H1 H2; [left; reflexivity|].
+  destruct fuel' as [|fu']; [lia|]. cbn [read_tex_loop].
+  destruct toks as [|t ts]; [apply fref_refl|].
+  apply fref_bind.
+  - destruct (fm_all_holds efuel) as (M & _). apply M. exact H2.
+  - intros [e rest]. apply IH; lia.
+Qed.
+
+Lemma Kept_length toks kept : Kept toks kept -> (length kept <= length toks)%nat.
+Proof. induction 1; simpl in *; lia. Qed.
+
 Theorem parse_tokens_drop_run toks user t :
   Hyp (all_skip user) toks -> parse_tokens toks true user = Ok t -> nobare t = true ->
   exists kept, Kept toks kept /\ estr t = texts kept /\
-    forall t', parse_tokens kept true user = Ok t' -> t' = t.
+    (forall t', parse_tokens kept true user = Ok t' -> t' = t) /\
+    (frag toks = true -> parse_tokens kept true user = Ok t).
 Proof.
   intros Hy H Hn. unfold parse_tokens in H.
   apply bind_ok in H. destruct H as (body & Hb & H). inversion H; subst t. clear H.
   apply (read_tex_loop_fp (all_skip user)) in Hb; [|intros n Hm; exact Hm | exact Hy].
   destruct Hb as (new & -> & C). cbn [app nobare] in Hn.
-  destruct (C Hn) as (kept & K & T & _ & D).
-  exists kept. split; [exact K|]. split; [exact T|].
-  intros t' HB. unfold parse_tokens in HB.
-  apply bind_ok in HB. destruct HB as (body' & Hb' & HB). inversion HB; subst t'.
-  apply D in Hb'. subst body'. reflexivity.
+  destruct (C Hn) as (kept & K & T & _ & _ & D & U).
+  exists kept. split; [exact K|]. split; [exact T|]. split.
+  { intros t' HB. unfold parse_tokens in HB.
+    apply bind_ok in HB. destruct HB as (body' & Hb' & HB). inversion HB; subst t'.
+    apply D in Hb'. subst body'. reflexivity. }
+  intro Hf. specialize (U Hf). unfold parse_tokens.
+  pose proof (Kept_length _ _ K) as Hlen.
+  pose proof (tex_loop_mono (Tables.skip_env_names ++ user) (S (length kept)) (S (length toks))
+                (fuel_for kept) (fuel_for toks) [] kept ltac:(lia)
+                ltac:(unfold fuel_for; lia)) as M.
+  pose proof (read_tex_loop_diag (S (length kept)) (fuel_for kept)
+                (Tables.skip_env_names ++ user) true [] kept ltac:(lia)
+                ltac:(unfold fuel_for; lia)) as Dg.
+  unfold all_skip in U. rewrite U in M.
+  destruct M as [M|M]; [rewrite M in Dg; contradiction|]. rewrite M. reflexivity.
 Qed.
 
 (* ====================================================================== *)
@@ -2405,12 +3133,13 @@ Theorem C16_retokenize (s : str) user t :
   drop_ctx_ok (fst (tokens_of_string s)) = true ->
   exists kept, Kept (fst (tokens_of_string s)) kept /\ estr t = texts kept /\
     tokens_of_string (estr t) = (TokInverse.repos 0 kept, TEnd) /\
-    (forall t', parse_tokens kept true user = Ok t' -> t' = t).
+    (forall t', parse_tokens kept true user = Ok t' -> t' = t) /\
+    (frag (fst (tokens_of_string s)) = true -> parse_tokens kept true user = Ok t).
 Proof.
   intros H Hcl Hq Hq' Hb Hn Hctx.
   apply parse_unfold in H. destruct H as (toks & Etok & Hp). rewrite Etok in *. cbn [fst] in *.
   pose proof (Hyp_of_tokenizer s toks TEnd _ Etok Hb) as Hy.
-  destruct (parse_tokens_drop_run toks user t Hy Hp Hn) as (kept & K & T & D).
+  destruct (parse_tokens_drop_run toks user t Hy Hp Hn) as (kept & K & T & D & U).
   destruct (TokInverse.tokens_shaped s Hcl Hq) as (toks0 & E0 & _ & Hsh & Hfo & Hfirst & _).
   rewrite Etok in E0. inversion E0; subst toks0.
   pose proof (Kept_DropSp toks kept K [] Hsh Hctx) as DS. cbn [app] in DS.
@@ -2418,7 +3147,7 @@ Proof.
   { change (TokInverse.texts kept) with (texts kept). rewrite <- T. exact Hq'. }
   destruct (TokInverse.drop_spacers_retokenize toks kept DS Hsh Hfo Hfirst Hq2)
     as (_ & _ & _ & Etk).
-  exists kept. split; [exact K|]. split; [exact T|]. split; [|exact D].
+  exists kept. split; [exact K|]. split; [exact T|]. split; [|split; [exact D | exact U]].
   rewrite T. exact Etk.
 Qed.
 
@@ -2437,7 +3166,7 @@ Theorem C16_reparse_outcome (s : str) user t :
   end.
 Proof.
   intros H Hcl Hq Hq' Hb Hn Hctx.
-  destruct (C16_retokenize s user t H Hcl Hq Hq' Hb Hn Hctx) as (kept & K & T & Etk & D).
+  destruct (C16_retokenize s user t H Hcl Hq Hq' Hb Hn Hctx) as (kept & K & T & Etk & D & _).
   unfold parse. rewrite Etk.
   pose proof (parse_tokens_pos_sim _ _ true user (repos_pos_sim kept 0)) as S.
   pose proof (parse_tokens_total (TokInverse.repos 0 kept) true user) as Tot.
@@ -2445,6 +3174,29 @@ Proof.
   destruct (parse_tokens (TokInverse.repos 0 kept) true user) as [t'|e]; [|exact Tot].
   destruct (parse_tokens kept true user) as [t''|e'] eqn:E2; [|contradiction].
   specialize (D t'' eq_refl). subst t''.
+  assert (S' : expr_pos_sim t t').
+  { apply ze_eq_sim. symmetry. apply sim_ze_eq. exact S. }
+  split; [exact S' | symmetry; apply expr_pos_sim_estr; exact S'].
+Qed.
+
+(* C16 in full for documents without \item whose \end{name} is not directly
+   followed by a group: the second parse succeeds *)
+Theorem C16_fixed_point (s : str) user t :
+  parse s true user = Ok t ->
+  TokInverse.clean s = true -> TokInverse.start_quirk s = false ->
+  TokInverse.start_quirk (estr t) = false ->
+  hypb (all_skip user) (fst (tokens_of_string s)) = true -> nobare t = true ->
+  drop_ctx_ok (fst (tokens_of_string s)) = true ->
+  frag (fst (tokens_of_string s)) = true ->
+  exists t', parse (estr t) true user = Ok t' /\ expr_pos_sim t t' /\ estr t' = estr t.
+Proof.
+  intros H Hcl Hq Hq' Hb Hn Hctx Hf.
+  destruct (C16_retokenize s user t H Hcl Hq Hq' Hb Hn Hctx) as (kept & K & T & Etk & _ & U).
+  specialize (U Hf).
+  pose proof (parse_tokens_pos_sim _ _ true user (repos_pos_sim kept 0)) as S.
+  rewrite U in S.
+  destruct (parse_tokens (TokInverse.repos 0 kept) true user) as [t'|e] eqn:E; [|contradiction].
+  exists t'. unfold parse. rewrite Etk. split; [exact E|].
   assert (S' : expr_pos_sim t t').
   { apply ze_eq_sim. symmetry. apply sim_ze_eq. exact S. }
   split; [exact S' | symmetry; apply expr_pos_sim_estr; exact S'].
@@ -2567,7 +3319,8 @@ Qed.
 Example exB_retokenize :
   exists kept, Kept (fst (tokens_of_string exB)) kept /\ estr treeB = texts kept /\
     tokens_of_string (estr treeB) = (TokInverse.repos 0 kept, TEnd) /\
-    (forall t', parse_tokens kept true [] = Ok t' -> t' = treeB).
+    (forall t', parse_tokens kept true [] = Ok t' -> t' = treeB) /\
+    (frag (fst (tokens_of_string exB)) = true -> parse_tokens kept true [] = Ok treeB).
 Proof.
   exact (C16_retokenize exB [] treeB exB_parses exB_clean exB_quirk exB_quirk'
            exB_hyp exB_nobare exB_ctx).
@@ -2629,3 +3382,102 @@ Example comment_clause_overcautious :
   exists t, parse s true [] = Ok t /\ estr t = s /\
             drop_ctx_ok (fst (tokens_of_string s)) = false.
 Proof. cbv zeta. eexists. split; [vm_compute; reflexivity|]. vm_compute. split; reflexivity. Qed.
+
+(* exC (216 characters): like exB with a quote and a verbatim environment
+   instead of the itemize; no \item, so the full theorem applies:
+     '\section {Intro} text $x^2$ and \[ a+b \]\n\textbf\n{bold} \cite [p. 3] {key}\n'
+     '\begin{quote}\none \emph {two}\n\end{quote}\n'
+     '\begin{verbatim}\n\x {y} $\n\end{verbatim}\n'
+     '\begin {center} c \end {center}\n\frac {a}\n{b} end % done\n'
+   real code: nine spacers dropped (the one inside verbatim is kept), and the
+   output is a fixed point. *)
+Definition exC : str :=
+  [92; 115; 101; 99; 116; 105; 111; 110; 32; 123; 73; 110; 116; 114; 111; 125; 32; 116; 101; 120;
+   116; 32; 36; 120; 94; 50; 36; 32; 97; 110; 100; 32; 92; 91; 32; 97; 43; 98; 32; 92; 93; 10; 92;
+   116; 101; 120; 116; 98; 102; 10; 123; 98; 111; 108; 100; 125; 32; 92; 99; 105; 116; 101; 32; 91;
+   112; 46; 32; 51; 93; 32; 123; 107; 101; 121; 125; 10; 92; 98; 101; 103; 105; 110; 123; 113; 117;
+   111; 116; 101; 125; 10; 111; 110; 101; 32; 92; 101; 109; 112; 104; 32; 123; 116; 119; 111; 125;
+   10; 92; 101; 110; 100; 123; 113; 117; 111; 116; 101; 125; 10; 92; 98; 101; 103; 105; 110; 123;
+   118; 101; 114; 98; 97; 116; 105; 109; 125; 10; 92; 120; 32; 123; 121; 125; 32; 36; 10; 92; 101;
+   110; 100; 123; 118; 101; 114; 98; 97; 116; 105; 109; 125; 10; 92; 98; 101; 103; 105; 110; 32;
+   123; 99; 101; 110; 116; 101; 114; 125; 32; 99; 32; 92; 101; 110; 100; 32; 123; 99; 101; 110; 116;
+   101; 114; 125; 10; 92; 102; 114; 97; 99; 32; 123; 97; 125; 10; 123; 98; 125; 32; 101; 110; 100;
+   32; 37; 32; 100; 111; 110; 101; 10]%N.
+Definition treeC : expr := match parse exC true [] with Ok t => t | Err _ => ERoot [] end.
+
+Example exC_parses : parse exC true [] = Ok treeC.
+Proof. vm_compute. reflexivity. Qed.
+Example exC_size : length exC = 216%nat /\ length (estr treeC) = 207%nat.
+Proof. vm_compute. split; reflexivity. Qed.
+Example exC_clean : TokInverse.clean exC = true.
+Proof. vm_compute. reflexivity. Qed.
+Example exC_quirk : TokInverse.start_quirk exC = false.
+Proof. vm_compute. reflexivity. Qed.
+Example exC_quirk' : TokInverse.start_quirk (estr treeC) = false.
+Proof. vm_compute. reflexivity. Qed.
+Example exC_hyp : hypb (all_skip []) (fst (tokens_of_string exC)) = true.
+Proof. vm_compute. reflexivity. Qed.
+Example exC_nobare : nobare treeC = true.
+Proof. vm_compute. reflexivity. Qed.
+Example exC_ctx : drop_ctx_ok (fst (tokens_of_string exC)) = true.
+Proof. vm_compute. reflexivity. Qed.
+Example exC_frag : frag (fst (tokens_of_string exC)) = true.
+Proof. vm_compute. reflexivity. Qed.
+(* the second parse succeeds BY THE THEOREM; nothing about it is computed *)
+Example exC_fixed_point :
+  exists t', parse (estr treeC) true [] = Ok t' /\ expr_pos_sim treeC t' /\ estr t' = estr treeC.
+Proof.
+  exact (C16_fixed_point exC [] treeC exC_parses exC_clean exC_quirk exC_quirk' exC_hyp
+           exC_nobare exC_ctx exC_frag).
+Qed.
+
+(* exD (248 characters): nested itemize / enumerate with plain \item's; the
+   item loops stop at `\item` and at `\end {enumerate}` (a peek across a spacer
+   that the second run no longer sees):
+     '\section {Intro} text $x^2$ and \[ a+b \]\n\textbf\n{bold} \cite [p. 3] {key}\n'
+     '\begin{itemize}\n\item one \emph {two}\n'
+     '\item three \begin{enumerate} \item x \item y \end {enumerate}\n\end{itemize}\n'
+     '\begin {center} c \end {center}\n\frac {a}\n{b} end % done\n'
+   real code: ten spacers dropped, output is a fixed point. *)
+Definition exD : str :=
+  [92; 115; 101; 99; 116; 105; 111; 110; 32; 123; 73; 110; 116; 114; 111; 125; 32; 116; 101; 120;
+   116; 32; 36; 120; 94; 50; 36; 32; 97; 110; 100; 32; 92; 91; 32; 97; 43; 98; 32; 92; 93; 10; 92;
+   116; 101; 120; 116; 98; 102; 10; 123; 98; 111; 108; 100; 125; 32; 92; 99; 105; 116; 101; 32; 91;
+   112; 46; 32; 51; 93; 32; 123; 107; 101; 121; 125; 10; 92; 98; 101; 103; 105; 110; 123; 105; 116;
+   101; 109; 105; 122; 101; 125; 10; 92; 105; 116; 101; 109; 32; 111; 110; 101; 32; 92; 101; 109;
+   112; 104; 32; 123; 116; 119; 111; 125; 10; 92; 105; 116; 101; 109; 32; 116; 104; 114; 101; 101;
+   32; 92; 98; 101; 103; 105; 110; 123; 101; 110; 117; 109; 101; 114; 97; 116; 101; 125; 32; 92;
+   105; 116; 101; 109; 32; 120; 32; 92; 105; 116; 101; 109; 32; 121; 32; 92; 101; 110; 100; 32; 123;
+   101; 110; 117; 109; 101; 114; 97; 116; 101; 125; 10; 92; 101; 110; 100; 123; 105; 116; 101; 109;
+   105; 122; 101; 125; 10; 92; 98; 101; 103; 105; 110; 32; 123; 99; 101; 110; 116; 101; 114; 125;
+   32; 99; 32; 92; 101; 110; 100; 32; 123; 99; 101; 110; 116; 101; 114; 125; 10; 92; 102; 114; 97;
+   99; 32; 123; 97; 125; 10; 123; 98; 125; 32; 101; 110; 100; 32; 37; 32; 100; 111; 110; 101; 10]%N.
+Definition treeD : expr := match parse exD true [] with Ok t => t | Err _ => ERoot [] end.
+
+Example exD_parses : parse exD true [] = Ok treeD.
+Proof. vm_compute. reflexivity. Qed.
+Example exD_size : length exD = 248%nat /\ length (estr treeD) = 238%nat.
+Proof. vm_compute. split; reflexivity. Qed.
+Example exD_clean : TokInverse.clean exD = true.
+Proof. vm_compute. reflexivity. Qed.
+Example exD_quirk : TokInverse.start_quirk exD = false.
+Proof. vm_compute. reflexivity. Qed.
+Example exD_quirk' : TokInverse.start_quirk (estr treeD) = false.
+Proof. vm_compute. reflexivity. Qed.
+Example exD_hyp : hypb (all_skip []) (fst (tokens_of_string exD)) = true.
+Proof. vm_compute. reflexivity. Qed.
+Example exD_nobare : nobare treeD = true.
+Proof. vm_compute. reflexivity. Qed.
+Example exD_ctx : drop_ctx_ok (fst (tokens_of_string exD)) = true.
+Proof. vm_compute. reflexivity. Qed.
+Example exD_frag : frag (fst (tokens_of_string exD)) = true.
+Proof. vm_compute. reflexivity. Qed.
+Example exD_fixed_point :
+  exists t', parse (estr treeD) true [] = Ok t' /\ expr_pos_sim treeD t' /\ estr t' = estr treeD.
+Proof.
+  exact (C16_fixed_point exD [] treeD exD_parses exD_clean exD_quirk exD_quirk' exD_hyp
+           exD_nobare exD_ctx exD_frag).
+Qed.
+(* exB has an \item with an optional label: outside the fragment *)
+Example exB_not_frag : frag (fst (tokens_of_string exB)) = false.
+Proof. vm_compute. reflexivity. Qed.
